@@ -570,11 +570,12 @@ enum
 };
 #define C15_SP_LABELS "origin_outside_hit", "origin_outside_sphere_behind", "origin_inside", "origin_on_surface", "clear_miss", "near_tangent", "band_skipped", "returned_true", "returned_false", "larger_root_expected"
 
+template <class T> static void sphere_check (vp::Ctx& c, const char* tn, const Sphere3<T>& sp, const Line3<T>& l);
+
 template <class T> static void sphere_case (vp::Ctx& c, const char* tn)
 {
     typedef Vec3<T> V;
     vp::Src&        s   = c.s;
-    const quad      eps = EPS<T> ();
     V               cen = gen_pt<T> (s);
     T               rad;
     switch (s.below (4))
@@ -636,6 +637,19 @@ template <class T> static void sphere_case (vp::Ctx& c, const char* tn)
     }
     if (!(l.dir.length2 () > 0)) l.dir = V (0, 0, 1);
     VP_NOTE (c, tn << " sphere centre=" << vs (cen) << " r=" << rad << " line=" << vs (l.pos) << "+t" << vs (l.dir) << " class=" << cls);
+    sphere_check<T> (c, tn, sp, l);
+}
+
+// the checks of sphere_case (shared with far_sphere_*): no draws in here.  All units are formed from the
+// differences pos - centre (which the library forms first, without rounding error worth mentioning), so they do
+// not grow with the distance of the configuration from the origin - except the final evaluation pos + dir*t.
+template <class T> static void sphere_check (vp::Ctx& c, const char* tn, const Sphere3<T>& sp, const Line3<T>& l)
+{
+    typedef Vec3<T> V;
+    const quad      eps = EPS<T> ();
+    const T         rad = sp.radius;
+    Q3              Cn  = q3 (sp.center);
+    quad            R   = (quad) rad;
 
     // exact roots of |pos + t dir - centre|^2 = r^2
     Q3   P = q3 (l.pos), D = q3 (l.dir), Vv = P - Cn;
@@ -710,11 +724,11 @@ enum
     CB_FAR_SMALL,
     CB_GENERIC
 };
+template <class T> static void circ_check (vp::Ctx& c, const char* tn, const Vec3<T>& mn, const Vec3<T>& mx);
 template <class T> static void circumscribe_case (vp::Ctx& c, const char* tn)
 {
     typedef Vec3<T> V;
     vp::Src&        s   = c.s;
-    const quad      eps = EPS<T> ();
     V               mn, mx;
     int             cls = (int) s.below (4);
     switch (cls)
@@ -741,11 +755,18 @@ template <class T> static void circumscribe_case (vp::Ctx& c, const char* tn)
                 mx[i] = mn[i] + (T) (s.uniform (0, 8) * std::ldexp (1.0, (int) s.range (-8, 8)));
             break;
     }
-    Box<V> box (mn, mx);
     VP_NOTE (c, tn << " box min=" << vs (mn) << " max=" << vs (mx));
     c.label (cls == 0 ? CB_POINT : cls == 1 ? CB_FLAT : cls == 2 ? CB_FAR_SMALL : CB_GENERIC);
     c.nt (cls != 0);
-    Sphere3<T> sp (V (5, 5, 5), (T) 55);
+    circ_check<T> (c, tn, mn, mx);
+}
+// the checks of circumscribe_case (shared with far_sphere_*): no draws in here
+template <class T> static void circ_check (vp::Ctx& c, const char* tn, const Vec3<T>& mn, const Vec3<T>& mx)
+{
+    typedef Vec3<T> V;
+    const quad      eps = EPS<T> ();
+    Box<V>          box (mn, mx);
+    Sphere3<T>      sp (V (5, 5, 5), (T) 55);
     sp.circumscribe (box);
     Q3   Cn = q3 (sp.center), A = q3 (mn), B = q3 (mx), mid = (A + B) * (quad) 0.5;
     quad mag = qmax (amax (A), amax (B)) + (quad) 1e-300;
@@ -794,11 +815,12 @@ enum
 };
 #define C15_TR_LABELS "hit_interior", "hit_near_edge", "hit_near_vertex", "passes_outside", "front_facing", "back_facing", "hit_behind_line_origin", "grazing_line", "thin_triangle", "degenerate_triangle", "line_parallel_to_plane", "band_skipped", "ill_conditioned_skipped", "returned_true", "returned_false"
 
+template <class T> static void tri_check (vp::Ctx& c, const char* tn, const Vec3<T>& v0, const Vec3<T>& v1, const Vec3<T>& v2, const Line3<T>& l, bool degenerate, bool inplane, bool farform);
+
 template <class T> static void tri_case (vp::Ctx& c, const char* tn)
 {
     typedef Vec3<T> V;
     vp::Src&        s   = c.s;
-    const quad      eps = EPS<T> ();
     int             shape = (int) s.below (8);
     V               v0, v1, v2;
     bool            degenerate = false, inplane = false;
@@ -882,6 +904,18 @@ template <class T> static void tri_case (vp::Ctx& c, const char* tn)
     }
     if (!(l.dir.length2 () > 0)) l.dir = V (0, 0, 1);
     VP_NOTE (c, tn << " v0=" << vs (v0) << " v1=" << vs (v1) << " v2=" << vs (v2) << " line=" << vs (l.pos) << "+t" << vs (l.dir) << " shape=" << shape << " baryclass=" << bcls);
+    tri_check<T> (c, tn, v0, v1, v2, l, degenerate, inplane, false);
+}
+
+// the checks of tri_case (shared with far_tri_*): no draws in here.  farform selects the position unit that
+// separates the coordinate magnitude (rounding of pos + dir*t, not amplified) from the quantities the library forms
+// from differences (v0 - pos, edges), which are the only ones amplified by 1/|n.dir|.
+template <class T> static void tri_check (vp::Ctx& c, const char* tn, const Vec3<T>& v0, const Vec3<T>& v1, const Vec3<T>& v2, const Line3<T>& l, bool degenerate, bool inplane, bool farform)
+{
+    typedef Vec3<T> V;
+    const quad      eps = EPS<T> ();
+    Q3              A = q3 (v0), B = q3 (v1), Cq = q3 (v2);
+    Q3              Nt = cross (B - A, Cq - A);
 
     V    pt (7, 7, 7), bary (7, 7, 7);
     bool front = false;
@@ -922,6 +956,7 @@ template <class T> static void tri_case (vp::Ctx& c, const char* tn)
     // barycentrics divide the position error by the smallest altitude
     quad condN = len (Cq - B) * len (B - A) / len (Ndoc);
     quad upos  = (Sv + len (P) + qabs (tx)) * (1 + 1 / qabs (nd)) + condN * len (X - A) / qabs (nd);
+    if (farform) upos = (Sv + len (P) + qabs (tx)) + (len (A - P) + qabs (tx)) / qabs (nd) + condN * len (X - A) / qabs (nd);
     quad kap   = upos / hmin;
     quad delta = 4 * eps * kap;
     if (!(delta <= (quad) (1.0 / 64)))
@@ -947,19 +982,19 @@ template <class T> static void tri_case (vp::Ctx& c, const char* tn)
     }
     else
         c.label (TR_OUTSIDE);
-    VP_REQUIRE (c, hit == expect, "tri-intersect/result", tn << " intersect() returned " << hit << " but the exact barycentrics of the plane hit are (" << qstr (bx[0]) << ", " << qstr (bx[1]) << ", " << qstr (bx[2]) << "), band " << (double) delta);
+    VP_REQUIRE (c, hit == expect, farform ? "tri-intersect/result/far" : "tri-intersect/result", tn << " intersect() returned " << hit << " but the exact barycentrics of the plane hit are (" << qstr (bx[0]) << ", " << qstr (bx[1]) << ", " << qstr (bx[2]) << "), band " << (double) delta);
     if (!hit) return;
     quad up = eps * upos;
     for (int i = 0; i < 3; ++i)
-        QG_CHK (c, "tri-intersect/point", qabs ((quad) pt[i] - X[i]), up, 2, tn << " pt[" << i << "] = " << pt[i] << " exact " << qstr (X[i]) << " n.dir=" << (double) nd); // measured worst 0.42 units
+        QG_CHK (c, (farform ? "tri-intersect/point/far" : "tri-intersect/point"), qabs ((quad) pt[i] - X[i]), up, 2, tn << " pt[" << i << "] = " << pt[i] << " exact " << qstr (X[i]) << " n.dir=" << (double) nd); // measured worst 0.42 units
     for (int i = 0; i < 3; ++i)
-        QG_CHK (c, "tri-intersect/barycentric", qabs ((quad) bary[i] - bx[i]), eps * kap, 2, tn << " barycentric[" << i << "] = " << bary[i] << " exact " << qstr (bx[i]) << " cond=" << (double) kap); // measured worst 0.35 units
+        QG_CHK (c, (farform ? "tri-intersect/barycentric/far" : "tri-intersect/barycentric"), qabs ((quad) bary[i] - bx[i]), eps * kap, 2, tn << " barycentric[" << i << "] = " << bary[i] << " exact " << qstr (bx[i]) << " cond=" << (double) kap); // measured worst 0.35 units
     Q3 rep = A * (quad) bary.x + B * (quad) bary.y + Cq * (quad) bary.z;
     for (int i = 0; i < 3; ++i)
-        QG_CHK (c, "tri-intersect/barycentric-reproduces-pt", qabs (rep[i] - (quad) pt[i]), eps * kap * Lmax, 2, tn << " v0*b.x+v1*b.y+v2*b.z [" << i << "] = " << qstr (rep[i]) << " but pt = " << pt[i]); // measured worst 0.25 units
+        QG_CHK (c, (farform ? "tri-intersect/barycentric-reproduces-pt/far" : "tri-intersect/barycentric-reproduces-pt"), qabs (rep[i] - (quad) pt[i]), eps * kap * Lmax, 2, tn << " v0*b.x+v1*b.y+v2*b.z [" << i << "] = " << qstr (rep[i]) << " but pt = " << pt[i]); // measured worst 0.25 units
     bool fx = dot (D, Ndoc) < 0;
     c.label (fx ? TR_FRONT : TR_BACK);
-    VP_REQUIRE (c, front == fx, "tri-intersect/front", tn << " front = " << front << " but dir.((v2-v1)x(v1-v0)) = " << qstr (dot (D, Ndoc)));
+    VP_REQUIRE (c, front == fx, farform ? "tri-intersect/front/far" : "tri-intersect/front", tn << " front = " << front << " but dir.((v2-v1)x(v1-v0)) = " << qstr (dot (D, Ndoc)));
 }
 #define C15_TR_RULE "triangles (regular, thin with altitude 1e-2..1e-4 of the base, exactly degenerate, in a z=const plane with an in-plane line) x hit points from generated barycentrics (interior, 10^-k inside/outside an edge or vertex, clearly outside, centroid) x lines through the hit from either side, incl. grazing (|n.dir| 1e-2..1e-4) and hits behind pos; oracle = quad plane hit + area barycentrics; non-trivial = min barycentric outside +-4 eps cond (the band is skipped and counted), or degenerate/parallel"
 VP_RANDOM (tri_f, 600000, 6000000, C15_TR_RULE) { tri_case<float> (c, "float"); }
@@ -1469,4 +1504,1516 @@ VP_RANDOM (plane_proj_d, 200000, 3000000, C15_PP_RULE) { plane_proj_case<double>
 VP_LABELS (plane_proj_d, C15_PP_LABELS)
 VP_REQUIRE_LABELS (plane_proj_d, "base_identity_or_translation", "base_rigid", "base_general_affine", "base_rows_scaled", "single_perspective_entry", "m33_not_1", "w_negative", "w_varies_by_more_than_25%", "side_preserved_checked", "det_negative(no side claim)")
 
+// =====================================================================================
+// 9. Configurations far from the origin (translation invariance / covariance) and perturbations 2^-k of the special
+//    cases, for every function of the property.
+//
+//    A configuration of extent 2^e is built around 0 first ("local" coordinates, held in quad), then every point is
+//    translated by one offset of length 2^(e+k) (1+u), k log-uniform over 0 .. 22 (float) / 0 .. 50 (double), in a
+//    generic, axis-aligned or diagonal direction, and rounded to T.  The oracle sees only the rounded inputs.
+//    "grid" is a power of two such that every multiple of it below 2 |offset| + 16 extent is a T value: local
+//    coordinates that are multiples of it survive the translation unchanged (exact ties, exactly collinear points, ...).
+//
+//    What the bounds have to express (M = coordinate magnitude, d = a difference of two inputs):
+//      * quantities the library forms from differences of inputs (v - p, pos - centre, p2 - p1, line.pos - pos) are
+//        accurate relative to |d|, however large M is - the subtraction of two T values has relative error eps/2;
+//        the bound is c eps |d| (|d| + ...) and must NOT contain M.  This is what rejects |v|^2 - 2 v.p + |p|^2
+//        (error eps M^2) while accepting (v - p).length2 () (error eps |d|^2);
+//      * results that are points (pos + dir t, reflections, closest points) and everything computed from the stored
+//        plane distance (normal . point) are accurate to eps M: that is the rounding of the result itself.
+// =====================================================================================
+template <class T> struct FarK
+{
+    enum
+    {
+        KMAX = 22,
+        SC   = 30
+    };
+};
+template <> struct FarK<double>
+{
+    enum
+    {
+        KMAX = 50,
+        SC   = 200
+    };
+};
+enum
+{
+    FO_NONE,
+    FO_LOW,
+    FO_HIGH,
+    FO_GENERIC,
+    FO_AXIS,
+    FO_DIAG,
+    FO_SNAPPED,
+    FO_NLABELS
+};
+#define C15_FO_LABELS "no_offset", "offset/extent_below_1/sqrt(eps)", "offset/extent_beyond_1/sqrt(eps)", "offset_generic_direction", "offset_axis_aligned", "offset_diagonal", "local_coordinates_on_the_grid_of_the_offset"
+#define C15_FO_REQUIRED "no_offset", "offset/extent_below_1/sqrt(eps)", "offset/extent_beyond_1/sqrt(eps)", "offset_generic_direction", "offset_axis_aligned", "offset_diagonal", "local_coordinates_on_the_grid_of_the_offset"
+#define C15_FO_RULE "configuration of extent 2^-3..2^3 built around 0, then translated as a whole by an offset of 2^k extents, k uniform in 0..22 (float) / 0..50 (double) (1/10 without offset), direction generic / axis-aligned / diagonal, all points rounded to T afterwards (half of the cases with local coordinates on the grid of the offset, so that the translation is exact); "
+
+struct FarPlace
+{
+    quad off[4]; // the offset; multiples of grid
+    quad grid;   // power of two; multiples of it below 2 max|off_i| + 16 ext are T values
+    quad ext;    // extent of the local configuration, 2^e
+    quad M;      // |offset| + ext
+    int  k;      // log2 (offset / extent), 0 without offset
+    bool snap;   // local coordinates are rounded to multiples of grid
+    bool none;
+    Q3   o3 () const { return Q3 (off[0], off[1], off[2]); }
+    quad snapq (quad v) const { return floorq (v / grid + (quad) 0.5) * grid; }
+    // local coordinate for x extents
+    quad loc (quad x) const
+    {
+        quad v = x * ext;
+        return snap ? snapq (v) : v;
+    }
+    Q3 loc3 (const Q3& x) const { return Q3 (loc (x.x), loc (x.y), loc (x.z)); }
+    // lattice unit: the larger of grid and ext / div (both powers of two)
+    quad unit (int div) const { return qmax (grid, ext / (quad) div); }
+};
+
+template <class T> static FarPlace gen_far (vp::Ctx& c, int N)
+{
+    vp::Src&  s    = c.s;
+    const int KMAX = FarK<T>::KMAX;
+    FarPlace  f;
+    int       e    = (int) s.range (-3, 3);
+    bool      none = s.chance (24);
+    int       k    = (int) s.range (0, KMAX);
+    int       dc   = (int) s.below (3);
+    double    dir[4] = { 0, 0, 0, 0 };
+    if (dc == 0)
+    {
+        double n2 = 0;
+        for (int i = 0; i < N; ++i)
+        {
+            dir[i] = s.uniform (-1, 1);
+            n2 += dir[i] * dir[i];
+        }
+        if (n2 < 0.01)
+        {
+            dir[0] = 1;
+            n2     = 1;
+            for (int i = 1; i < N; ++i)
+                dir[i] = 0;
+        }
+        for (int i = 0; i < N; ++i)
+            dir[i] /= std::sqrt (n2);
+    }
+    else if (dc == 1)
+    {
+        int  a   = (int) s.below ((uint64_t) N);
+        bool neg = s.coin ();
+        dir[a]   = neg ? -1 : 1;
+    }
+    else
+    {
+        for (int i = 0; i < N; ++i)
+        {
+            bool neg = s.coin ();
+            dir[i]   = neg ? -1 : 1;
+        }
+        if (N >= 3)
+        {
+            int z = (int) s.below ((uint64_t) N + 1); // N: space diagonal, else a face diagonal
+            if (z < N) dir[z] = 0;
+        }
+    }
+    double u   = s.unit ();
+    f.snap     = s.coin ();
+    f.none     = none;
+    f.k        = none ? 0 : k;
+    double ext = std::ldexp (1.0, e);
+    double mag = none ? 0.0 : std::ldexp (1.0 + u, e + k);
+    double am  = 0;
+    for (int i = 0; i < N; ++i)
+        am = std::max (am, std::fabs (dir[i] * mag));
+    int E = 0;
+    std::frexp (2 * am + 16 * ext, &E); // 2 am + 16 ext < 2^E
+    double grid = std::ldexp (1.0, E - FInfo<T>::mant);
+    double o2   = 0;
+    for (int i = 0; i < 4; ++i)
+    {
+        double o = i < N ? std::nearbyint (dir[i] * mag / grid) * grid : 0.0;
+        f.off[i] = (quad) o;
+        o2 += o * o;
+    }
+    f.grid = (quad) grid;
+    f.ext  = (quad) ext;
+    f.M    = (quad) std::sqrt (o2) + (quad) ext;
+    if (none)
+        c.label (FO_NONE);
+    else
+    {
+        c.label (k < KMAX / 2 ? FO_LOW : FO_HIGH);
+        c.label (dc == 0 ? FO_GENERIC : dc == 1 ? FO_AXIS : FO_DIAG);
+    }
+    if (f.snap) c.label (FO_SNAPPED);
+    return f;
+}
+static inline std::string far_note (const FarPlace& f)
+{
+    return " [offset (" + qstr (f.off[0]) + " " + qstr (f.off[1]) + " " + qstr (f.off[2]) + " " + qstr (f.off[3]) + ") = 2^" + std::to_string (f.k) + " extents of " + qstr (f.ext) + ", grid " + qstr (f.grid) + (f.snap ? ", snapped" : "") + "]";
+}
+// a local coordinate in extents: quarters -1..1 or uniform
+static inline double loc_unit (vp::Src& s)
+{
+    int cls = (int) s.below (3);
+    if (cls == 0)
+    {
+        int r = (int) s.range (-4, 4);
+        return r * 0.25;
+    }
+    double u = s.uniform (-1, 1);
+    return u;
+}
+static inline Q3 loc_pt (vp::Src& s, const FarPlace& f)
+{
+    double x = loc_unit (s);
+    double y = loc_unit (s);
+    double z = loc_unit (s);
+    return Q3 (f.loc ((quad) x), f.loc ((quad) y), f.loc ((quad) z));
+}
+// a direction (not normalised): axis, small integers, or random unit vector
+static inline Q3 loc_dir (vp::Src& s, int* cls_out = 0)
+{
+    int cls = (int) s.below (3);
+    if (cls_out) *cls_out = cls;
+    if (cls == 0)
+    {
+        int  a   = (int) s.below (3);
+        bool neg = s.coin ();
+        Q3   d;
+        d[a] = neg ? -1 : 1;
+        return d;
+    }
+    if (cls == 1)
+    {
+        int x = (int) s.range (-3, 3);
+        int y = (int) s.range (-3, 3);
+        int z = (int) s.range (-3, 3);
+        if (x == 0 && y == 0 && z == 0) x = 1;
+        return Q3 (x, y, z);
+    }
+    return seq_dir (s);
+}
+// perturbation 2^-j (1+u), j from 4 up to the digits of T plus 3
+template <class T> static inline quad tiny_pert (vp::Src& s, int* j_out = 0)
+{
+    int    j = (int) s.range (4, FInfo<T>::mant + 3);
+    double u = s.unit ();
+    if (j_out) *j_out = j;
+    return (quad) std::ldexp (1.0 + u, -j);
+}
+
+// ---- 9a. closestVertex (v0, v1, v2, p) of ImathVecAlgo.h, Vec2 / Vec3 / Vec4
+//
+//    The library compares (v_k - p).length2 ().  v_k - p has relative error eps/2 per component whatever the
+//    magnitude of the coordinates, the squares and the sum add (N+1) eps/2: each key has relative error
+//    (N+2) eps / 2, so the returned vertex k satisfies |v_k - p|^2 <= min (1 + (N+2) eps).  No term in M.
+//    On the lattice (all local coordinates small integer multiples of one power of two that is a multiple of the
+//    grid) the keys are computed without any rounding: the returned vertex must attain the minimum exactly.
+//    Exact ties: the property asks for a nearest vertex and nothing about which one; any tied vertex is accepted
+//    (the unchanged code returns the first in the order v0, v1, v2).
+enum
+{
+    FV_VEC2 = FO_NLABELS,
+    FV_VEC3,
+    FV_VEC4,
+    FV_LATTICE,
+    FV_TIE2,
+    FV_TIE3,
+    FV_P_IS_VERTEX,
+    FV_P_NEAR_VERTEX,
+    FV_GENERIC,
+    FV_FORCED,
+    FV_NEAR_TIE
+};
+template <class Vec, class T, int N> static void far_vertex_case (vp::Ctx& c, const char* tn, const FarPlace& f)
+{
+    vp::Src&   s   = c.s;
+    const quad eps = EPS<T> ();
+    int        cls = (int) s.below (7);
+    quad       L[4][4]; // local coordinates of v0, v1, v2, p
+    for (int k = 0; k < 4; ++k)
+        for (int i = 0; i < 4; ++i)
+            L[k][i] = 0;
+    bool lattice = cls <= 2;
+    if (lattice)
+    {
+        quad U = f.unit (4);
+        for (int k = 0; k < 4; ++k)
+            for (int i = 0; i < N; ++i)
+            {
+                int m   = (int) s.range (-3, 3);
+                L[k][i] = (quad) m * U;
+            }
+        if (cls >= 1) // forced ties: v_b - p = a signed permutation of v_a - p
+        {
+            int a  = (int) s.below (3);
+            int bs = (int) s.below (2);
+            int b  = (a + 1 + bs) % 3;
+            int third = 3 - a - b;
+            for (int rep = 0; rep < (cls == 2 ? 2 : 1); ++rep)
+            {
+                int  tgt = rep == 0 ? b : third;
+                quad d[4];
+                for (int i = 0; i < N; ++i)
+                    d[i] = L[a][i] - L[3][i];
+                int i0 = (int) s.below ((uint64_t) N);
+                int i1 = (int) s.below ((uint64_t) N);
+                std::swap (d[i0], d[i1]);
+                for (int i = 0; i < N; ++i)
+                {
+                    bool neg = s.coin ();
+                    if (neg) d[i] = -d[i];
+                }
+                for (int i = 0; i < N; ++i)
+                    L[tgt][i] = L[3][i] + d[i];
+            }
+        }
+        c.label (FV_LATTICE);
+    }
+    else
+    {
+        for (int k = 0; k < 4; ++k)
+            for (int i = 0; i < N; ++i)
+            {
+                double x = loc_unit (s);
+                L[k][i]  = f.loc ((quad) x);
+            }
+        if (cls == 3) // p is one of the vertices
+        {
+            int a = (int) s.below (3);
+            for (int i = 0; i < N; ++i)
+                L[3][i] = L[a][i];
+            c.label (FV_P_IS_VERTEX);
+        }
+        else if (cls == 4) // p within 2^-j extents of a vertex
+        {
+            int a = (int) s.below (3);
+            int j = (int) s.range (1, 10);
+            for (int i = 0; i < N; ++i)
+            {
+                double x = loc_unit (s);
+                L[3][i]  = L[a][i] + f.loc ((quad) std::ldexp (x, -j));
+            }
+            c.label (FV_P_NEAR_VERTEX);
+        }
+        else if (cls == 5) // near tie: v_b - p = signed permutation of v_a - p before rounding (differs by the rounding of the inputs)
+        {
+            int  a  = (int) s.below (3);
+            int  bs = (int) s.below (2);
+            int  b  = (a + 1 + bs) % 3;
+            quad d[4];
+            for (int i = 0; i < N; ++i)
+                d[i] = L[a][i] - L[3][i];
+            int i0 = (int) s.below ((uint64_t) N);
+            int i1 = (int) s.below ((uint64_t) N);
+            std::swap (d[i0], d[i1]);
+            for (int i = 0; i < N; ++i)
+            {
+                bool neg = s.coin ();
+                if (neg) d[i] = -d[i];
+            }
+            for (int i = 0; i < N; ++i)
+                L[b][i] = L[3][i] + d[i];
+            c.label (FV_NEAR_TIE);
+        }
+        else
+            c.label (FV_GENERIC);
+    }
+    Vec v[3], p;
+    for (int i = 0; i < N; ++i)
+    {
+        for (int k = 0; k < 3; ++k)
+            v[k][i] = (T) (f.off[i] + L[k][i]);
+        p[i] = (T) (f.off[i] + L[3][i]);
+    }
+    VP_NOTE (c, tn << " v0=" << vstr (v[0], N) << " v1=" << vstr (v[1], N) << " v2=" << vstr (v[2], N) << " p=" << vstr (p, N) << " class=" << cls << far_note (f));
+    if (lattice || f.snap)
+        for (int i = 0; i < N; ++i)
+            VP_REQUIRE (c, (quad) v[0][i] == f.off[i] + L[0][i] && (quad) v[1][i] == f.off[i] + L[1][i] && (quad) v[2][i] == f.off[i] + L[2][i] && (quad) p[i] == f.off[i] + L[3][i], "harness/far-grid-not-exact", tn << " translated grid coordinate is not representable (harness error)");
+    Vec  cv = closestVertex (v[0], v[1], v[2], p);
+    int  which = -1;
+    quad d2[3], dmin = (quad) 1e300;
+    for (int k = 0; k < 3; ++k)
+    {
+        d2[k]   = 0;
+        bool eq = true;
+        for (int i = 0; i < N; ++i)
+        {
+            quad d = (quad) v[k][i] - (quad) p[i];
+            d2[k] += d * d;
+            if (!same<T> (cv[i], v[k][i])) eq = false;
+        }
+        if (eq && (which < 0 || d2[k] < d2[which])) which = k;
+        dmin = qmin (dmin, d2[k]);
+    }
+    VP_REQUIRE (c, which >= 0, "closestVertex/not-a-vertex", tn << " closestVertex returned " << vstr (cv, N) << " which is none of the three vertices");
+    int  ntie = 0, nclose = 0;
+    quad K    = (quad) (2 * (N + 2)); // analysis (N+2) eps; measured worst excess 1.0 (float) / 0.99 (double) eps [see MEAS below]
+    for (int k = 0; k < 3; ++k)
+    {
+        if (d2[k] == dmin) ++ntie;
+        if (d2[k] <= dmin * (1 + K * eps)) ++nclose;
+    }
+    if (ntie == 2) c.label (FV_TIE2);
+    if (ntie == 3) c.label (FV_TIE3);
+    if (nclose == 1) c.label (FV_FORCED);
+    c.nt (!f.none);
+    if (dmin > 0) QG_MEAS ("closestVertex/far-excess(eps)", (d2[which] / dmin - 1) / eps);
+    VP_REQUIRE (c, d2[which] <= dmin * (1 + K * eps), "closestVertex/not-closest-far-offset", tn << " closestVertex(" << vstr (v[0], N) << "," << vstr (v[1], N) << "," << vstr (v[2], N) << "; p=" << vstr (p, N) << ") = vertex " << which << " at squared distance " << qstr (d2[which]) << " but the minimum is " << qstr (dmin) << " (squared distances " << qstr (d2[0]) << " " << qstr (d2[1]) << " " << qstr (d2[2]) << "; ratio - 1 = " << (double) ((d2[which] / (dmin > 0 ? dmin : 1) - 1) / eps) << " eps)");
+    if (lattice) // all keys exact: no slack at all; any of the tied vertices
+        VP_REQUIRE (c, d2[which] == dmin, "closestVertex/not-closest-far-offset", tn << " (exact lattice) closestVertex returned vertex " << which << " at squared distance " << qstr (d2[which]) << ", minimum " << qstr (dmin));
+}
+template <class T> static void far_vertex_dispatch (vp::Ctx& c)
+{
+    int N = 2 + (int) c.s.below (3);
+    FarPlace f = gen_far<T> (c, N);
+    c.label (N == 2 ? FV_VEC2 : N == 3 ? FV_VEC3 : FV_VEC4);
+    const bool dbl = sizeof (T) == 8;
+    if (N == 2)
+        far_vertex_case<Vec2<T>, T, 2> (c, dbl ? "V2d" : "V2f", f);
+    else if (N == 3)
+        far_vertex_case<Vec3<T>, T, 3> (c, dbl ? "V3d" : "V3f", f);
+    else
+        far_vertex_case<Vec4<T>, T, 4> (c, dbl ? "V4d" : "V4f", f);
+}
+#define C15_FV_LABELS C15_FO_LABELS, "Vec2", "Vec3", "Vec4", "integer_lattice(exact_keys)", "two_vertices_tied_exactly", "three_vertices_tied_exactly", "p_is_a_vertex", "p_within_2^-j_of_a_vertex", "generic_triangle", "answer_forced", "two_vertices_tied_up_to_input_rounding"
+#define C15_FV_RULE C15_FO_RULE "closestVertex(v0,v1,v2,p) for Vec2/3/4: lattice triangles (small integer multiples of a power of two; random, or with two / three vertices at exactly the same distance by signed permutations of v-p), p equal to a vertex, p within 2^-1..2^-10 extents of a vertex, two vertices tied up to the rounding of the inputs, generic; oracle = quad squared distances of the rounded inputs; returned vertex within a factor 1 + 2(N+2) eps of the minimum squared distance (no slack at all on the lattice; any exactly tied vertex accepted); non-trivial = translated"
+VP_RANDOM (far_vertex_f, 300000, 3000000, C15_FV_RULE) { far_vertex_dispatch<float> (c); }
+VP_LABELS (far_vertex_f, C15_FV_LABELS)
+VP_REQUIRE_LABELS (far_vertex_f, C15_FO_REQUIRED, "Vec2", "Vec3", "Vec4", "integer_lattice(exact_keys)", "two_vertices_tied_exactly", "three_vertices_tied_exactly", "p_is_a_vertex", "p_within_2^-j_of_a_vertex", "generic_triangle", "answer_forced", "two_vertices_tied_up_to_input_rounding")
+VP_RANDOM (far_vertex_d, 300000, 3000000, C15_FV_RULE) { far_vertex_dispatch<double> (c); }
+VP_LABELS (far_vertex_d, C15_FV_LABELS)
+VP_REQUIRE_LABELS (far_vertex_d, C15_FO_REQUIRED, "Vec2", "Vec3", "Vec4", "integer_lattice(exact_keys)", "two_vertices_tied_exactly", "three_vertices_tied_exactly", "p_is_a_vertex", "p_within_2^-j_of_a_vertex", "generic_triangle", "answer_forced", "two_vertices_tied_up_to_input_rounding")
+
+// ---- 9b. one line and points: Line3 set / closestPointTo(point) / distanceTo(point), closestVertex (v0,v1,v2,line),
+//      rotatePoint, all translated.
+//
+//    closestPointTo(q) = ((q - pos).dir) dir + pos: the parameter is formed from a difference (accurate relative to
+//    |q - pos|), the sum is rounded at eps M; distanceTo(q) = |closestPointTo(q) - q| inherits that absolute error,
+//    closestVertex(line) compares such distances, rotatePoint adds a rotated radius to closestPointTo(p).
+//    Unit for all of them: E = eps (|q - pos| + |pos| [+ |q|]) - the conditioning of a result that is a point near M.
+//    The direction is formed from the difference p1 - p0 and is accurate to eps whatever M.
+enum
+{
+    FL_DIR_AXIS = FO_NLABELS,
+    FL_Q_IS_POS,
+    FL_Q_ON_LINE,
+    FL_Q_NEAR_LINE,
+    FL_Q_GENERIC,
+    FL_CV_FORCED,
+    FL_RP_ON_AXIS,
+    FL_RP_NEAR_AXIS,
+    FL_RP_GENERIC,
+    FL_RP_QUARTER
+};
+template <class T> static void far_line_case (vp::Ctx& c, const char* tn)
+{
+    typedef Vec3<T> V;
+    vp::Src&        s   = c.s;
+    const quad      eps = EPS<T> ();
+    FarPlace        f   = gen_far<T> (c, 3);
+    Q3              O   = f.o3 ();
+    Q3              a   = loc_pt (s, f);
+    int             dcl = 0;
+    Q3              dl  = loc_dir (s, &dcl);
+    double          dlen = s.uniform (0.25, 2);
+    Q3              b   = a + f.loc3 (dl * (quad) dlen);
+    V               p0 = rnd<T> (O + a), p1 = rnd<T> (O + b);
+    if (p1 == p0) p1.x = (T) ((quad) p0.x + qmax (f.grid, f.ext));
+    Line3<T> l (p0, p1);
+    if (dcl == 0) c.label (FL_DIR_AXIS);
+    c.nt (!f.none);
+    Q3 P = q3 (l.pos), D = q3 (l.dir), Du = unit (D);
+    // ---- query point for closestPointTo / distanceTo
+    int qcls = (int) s.below (4);
+    V   q;
+    if (qcls == 0)
+        q = p0;
+    else if (qcls == 1)
+    {
+        double t = s.uniform (-4, 4);
+        q        = rnd<T> (P + Du * ((quad) t * f.ext));
+    }
+    else if (qcls == 2)
+    {
+        double t   = s.uniform (-4, 4);
+        double phi = s.uniform (0, 6.283);
+        quad   h   = tiny_pert<T> (s);
+        q          = rnd<T> (P + Du * ((quad) t * f.ext) + perp_to (D, (quad) phi) * (h * 8 * f.ext));
+    }
+    else
+        q = rnd<T> (O + loc_pt (s, f));
+    c.label (qcls == 0 ? FL_Q_IS_POS : qcls == 1 ? FL_Q_ON_LINE : qcls == 2 ? FL_Q_NEAR_LINE : FL_Q_GENERIC);
+    VP_NOTE (c, tn << " p0=" << vs (p0) << " p1=" << vs (p1) << " q=" << vs (q) << " qclass=" << qcls << far_note (f));
+    VP_REQUIRE (c, same3 (l.pos, p0), "line-set/pos", tn << " pos " << vs (l.pos) << " != p0 " << vs (p0));
+    {
+        Q3 DX = unit (q3 (p1) - q3 (p0));
+        for (int i = 0; i < 3; ++i)
+            QG_CHK (c, "line-set/dir/far", qabs (D[i] - DX[i]), eps, 6, tn << " dir[" << i << "] = " << l.dir[i] << " exact " << qstr (DX[i]) << " for p0=" << vs (p0) << " p1=" << vs (p1)); // measured worst 1.1 units
+    }
+    {
+        Q3   Q  = q3 (q);
+        quad tx = dot (Q - P, D) / dot (D, D);
+        Q3   CX = P + D * tx;
+        quad S  = len (Q - P) + len (P) + len (Q) + (quad) 1e-30;
+        V    cp = l.closestPointTo (q);
+        Q3   C  = q3 (cp);
+        for (int i = 0; i < 3; ++i)
+            QG_CHK (c, "line-closestPointTo-point/far-offset", qabs (C[i] - CX[i]), eps * S, 8, tn << " closestPointTo(" << vs (q) << ")[" << i << "] = " << cp[i] << " exact " << qstr (CX[i]) << " line " << vs (l.pos) << "+t" << vs (l.dir)); // measured worst 0.75 units
+        QG_CHK (c, "line-closestPointTo-point/on-line/far-offset", len (cross (C - P, D)) / len (D), eps * S, 4, tn << " closestPointTo(" << vs (q) << ") = " << vs (cp) << " is off the line"); // measured worst 0.37 units
+        QG_CHK (c, "line-closestPointTo-point/perp/far-offset", qabs (dot (Q - C, D)), eps * S, 8, tn << " (q - closestPointTo(q)).dir != 0 for q=" << vs (q) << " cp=" << vs (cp)); // measured worst 0.75 units
+        T    dist = l.distanceTo (q);
+        quad dx   = len (Q - CX);
+        QG_CHK (c, "line-distanceTo-point/far-offset", qabs ((quad) dist - dx), eps * S, 8, tn << " distanceTo(" << vs (q) << ") = " << dist << " exact " << qstr (dx) << " line " << vs (l.pos) << "+t" << vs (l.dir)); // measured worst 0.57 units
+        VP_REQUIRE (c, dist >= 0, "line-distanceTo-point/negative", tn << " distanceTo(point) = " << dist);
+    }
+    // ---- closestVertex (v0, v1, v2, line): same statement and unit as section 7, here with the triangle next to pos
+    {
+        V v[3];
+        for (int k = 0; k < 3; ++k)
+            v[k] = rnd<T> (O + loc_pt (s, f));
+        VP_NOTE (c, "triangle " << vs (v[0]) << " " << vs (v[1]) << " " << vs (v[2]));
+        V    cv = closestVertex (v[0], v[1], v[2], l);
+        int  which = -1;
+        quad dk[3], dmin = (quad) 1e300, wmax = 0;
+        for (int k = 0; k < 3; ++k)
+        {
+            Q3 w  = q3 (v[k]) - P;
+            dk[k] = len (cross (w, Du));
+            wmax  = qmax (wmax, len (w));
+            dmin  = qmin (dmin, dk[k]);
+        }
+        for (int k = 0; k < 3; ++k)
+            if (same3 (cv, v[k]) && (which < 0 || dk[k] < dk[which])) which = k;
+        VP_REQUIRE (c, which >= 0, "closestVertex-line/not-a-vertex", tn << " closestVertex(line) returned " << vs (cv) << " which is none of the vertices");
+        quad E      = eps * (wmax + len (P));
+        int  nclose = 0;
+        for (int k = 0; k < 3; ++k)
+            if (dk[k] <= (dmin + 4 * E) * (1 + 8 * eps)) ++nclose;
+        if (nclose == 1) c.label (FL_CV_FORCED);
+        QG_MEAS ("closestVertex-line/far-offset-excess", (dk[which] - dmin) / (E + (quad) 1e-300));
+        // analysis as in section 7 (~3 E); measured worst excess 0.45 E
+        VP_REQUIRE (c, dk[which] <= (dmin + 4 * E) * (1 + 8 * eps), "closestVertex-line/not-closest-far-offset", tn << " closestVertex(line) = vertex " << which << " at distance " << qstr (dk[which]) << " from the line, but the vertex distances are " << qstr (dk[0]) << " " << qstr (dk[1]) << " " << qstr (dk[2]) << " (resolvable to " << qstr (4 * E) << ")");
+    }
+    // ---- rotatePoint
+    {
+        int pc = (int) s.below (4);
+        V   p;
+        if (pc == 0)
+            p = p0;
+        else if (pc == 1)
+        {
+            double t   = s.uniform (-4, 4);
+            double phi = s.uniform (0, 6.283);
+            quad   h   = tiny_pert<T> (s);
+            p          = rnd<T> (P + Du * ((quad) t * f.ext) + perp_to (D, (quad) phi) * (h * 8 * f.ext));
+        }
+        else
+            p = rnd<T> (O + loc_pt (s, f));
+        int ac = (int) s.below (3);
+        T   ang;
+        if (ac == 0)
+        {
+            int m = (int) s.range (-4, 4);
+            ang   = (T) ((double) m * 1.5707963267948966);
+        }
+        else
+        {
+            double u = s.uniform (-6.3, 6.3);
+            ang      = (T) u;
+        }
+        c.label (pc == 0 ? FL_RP_ON_AXIS : pc == 1 ? FL_RP_NEAR_AXIS : FL_RP_GENERIC);
+        if (ac == 0) c.label (FL_RP_QUARTER);
+        VP_NOTE (c, "rotatePoint p=" << vs (p) << " angle=" << ang);
+        Q3   Pq = q3 (p), rel = Pq - P;
+        Q3   ax = Du * dot (rel, Du), pe = rel - ax;
+        quad an = -(quad) ang;
+        Q3   RX = P + ax + pe * cosq (an) + cross (Du, pe) * sinq (an);
+        quad S  = len (Pq) + len (P) + len (rel) + (quad) 1e-300;
+        V    r  = rotatePoint (p, l, ang);
+        for (int i = 0; i < 3; ++i)
+            QG_CHK (c, "rotatePoint/far-offset", qabs ((quad) r[i] - RX[i]), eps * S, 12, tn << " rotatePoint[" << i << "] = " << r[i] << " exact " << qstr (RX[i])); // measured worst 1.5 units
+        Q3 rq = q3 (r) - P;
+        QG_CHK (c, "rotatePoint/axial-component/far-offset", qabs (dot (rq, Du) - dot (rel, Du)), eps * S, 12, tn << " component along the line changes: " << qstr (dot (rq, Du)) << " vs " << qstr (dot (rel, Du))); // measured worst 1.6 units
+        QG_CHK (c, "rotatePoint/distance-to-line/far-offset", qabs (len (cross (rq, Du)) - len (pe)), eps * S, 8, tn << " distance to the line changes: " << qstr (len (cross (rq, Du))) << " vs " << qstr (len (pe))); // measured worst 1.1 units
+    }
+}
+#define C15_FL_LABELS C15_FO_LABELS, "axis_aligned_dir", "q_is_pos", "q_on_line", "q_2^-j_off_line", "q_generic", "closestVertex_answer_forced", "rotate_p_is_pos", "rotate_p_2^-j_off_axis", "rotate_p_generic", "quarter_turns"
+#define C15_FL_RULE C15_FO_RULE "a line through two local points (axis / integer / random directions), query point equal to pos, on the line, 2^-1..2^-(digits+3) extents off it, generic; a local triangle for closestVertex(line); rotatePoint of pos / near-axis / generic points by quarter turns or +-2pi; oracle = quad projection / point-line distances / Rodrigues rotation on the rounded inputs; units eps (|q-pos| + |pos| + |q|); non-trivial = translated"
+VP_RANDOM (far_line_f, 150000, 1500000, C15_FL_RULE) { far_line_case<float> (c, "float"); }
+VP_LABELS (far_line_f, C15_FL_LABELS)
+VP_REQUIRE_LABELS (far_line_f, C15_FL_LABELS)
+VP_RANDOM (far_line_d, 150000, 1500000, C15_FL_RULE) { far_line_case<double> (c, "double"); }
+VP_LABELS (far_line_d, C15_FL_LABELS)
+VP_REQUIRE_LABELS (far_line_d, C15_FL_LABELS)
+
+// ---- 9c. two lines: closestPoints, closestPointTo(line), distanceTo(line), translated, with the angle between the
+//      lines generic, 2^-j (j up to the digits of T + 3), exactly 0 (directions assigned, or both lines built from
+//      point pairs p, p + k d with integer d and non-power-of-two k), or pi/2.
+//
+//    All three functions start from w = pos1 - pos2 (accurate relative to |w|) and dot / cross products of the two
+//    unit directions.  With s2 = sin^2 of the angle:
+//      parameters t1, t2: quotients by 1 - (d1.d2)^2 (absolute error eps): error eps (|w| + |t|) / s2;
+//      points pos + dir t: + eps (|pos| + |t|) - the only place where the coordinate magnitude enters;
+//      connecting segment: the errors of t1 and t2 are correlated (common denominator): eps (|w| / s2 + |t1| + |t2| + |pos|);
+//      distanceTo(line) = |(d1 x d2) . w| / |d1 x d2|: the cross product has absolute error eps, i.e. its direction
+//      is off by eps / sin: error eps |w| / sin, no coordinate magnitude at all (exactly parallel: the library
+//      falls back to distanceTo (line.pos), error eps M).  The bound is below |w| - i.e. says something - while
+//      sin >= 64 eps; a "nearly parallel" shortcut anywhere above that is visible.
+enum
+{
+    FLL_SKEW = FO_NLABELS,
+    FLL_INTERSECTING,
+    FLL_NEARPAR,
+    FLL_INT_MULTIPLES,
+    FLL_SAME_DIR,
+    FLL_PERP,
+    FLL_EXACT_PARALLEL,
+    FLL_STRONG,
+    FLL_WEAK,
+    FLL_REPORTED_FALSE,
+    FLL_DIST_CHECKED,
+    FLL_DIST_NEARPAR_CHECKED
+};
+template <class T> static void far_lines_case (vp::Ctx& c, const char* tn)
+{
+    typedef Vec3<T> V;
+    vp::Src&        s   = c.s;
+    const quad      eps = EPS<T> ();
+    FarPlace        f   = gen_far<T> (c, 3);
+    Q3              O   = f.o3 ();
+    int             cls = (int) s.below (6);
+    Line3<T>        l1, l2;
+    {
+        Q3     a    = loc_pt (s, f);
+        Q3     dl   = loc_dir (s);
+        double dlen = s.uniform (0.25, 2);
+        Q3     b    = a + f.loc3 (dl * (quad) dlen);
+        V      p0 = rnd<T> (O + a), p1 = rnd<T> (O + b);
+        if (p1 == p0) p1.x = (T) ((quad) p0.x + qmax (f.grid, f.ext));
+        l1 = Line3<T> (p0, p1);
+    }
+    Q3 D1l = q3 (l1.dir);
+    switch (cls)
+    {
+        case 0: // generic second line
+        {
+            Q3     a    = loc_pt (s, f);
+            Q3     dl   = loc_dir (s);
+            double dlen = s.uniform (0.25, 2);
+            Q3     b    = a + f.loc3 (dl * (quad) dlen);
+            V      p0 = rnd<T> (O + a), p1 = rnd<T> (O + b);
+            if (p1 == p0) p1.y = (T) ((quad) p0.y + qmax (f.grid, f.ext));
+            l2 = Line3<T> (p0, p1);
+            c.label (FLL_SKEW);
+            break;
+        }
+        case 1: // through a common point (to rounding)
+        {
+            double t  = s.uniform (-2, 2);
+            Q3     x  = q3 (l1.pos) + D1l * ((quad) t * f.ext);
+            Q3     d2 = seq_dir (s);
+            double al = s.uniform (0.25, 2);
+            double be = s.uniform (0.25, 2);
+            V      p0 = rnd<T> (x - d2 * ((quad) al * f.ext)), p1 = rnd<T> (x + d2 * ((quad) be * f.ext));
+            if (p1 == p0) p1.y = (T) ((quad) p0.y + qmax (f.grid, f.ext));
+            l2 = Line3<T> (p0, p1);
+            c.label (FLL_INTERSECTING);
+            break;
+        }
+        case 2: // angle 2^-j
+        {
+            Q3     pos2 = loc_pt (s, f);
+            double phi  = s.uniform (0, 6.283);
+            quad   th   = tiny_pert<T> (s);
+            Q3     d    = unit (D1l) + perp_to (D1l, (quad) phi) * th;
+            bool   flip = s.coin ();
+            bool   two  = s.coin ();
+            double dlen = s.uniform (0.5, 4);
+            if (flip) d = -d;
+            l2.pos = rnd<T> (O + pos2);
+            if (two)
+            {
+                V p1 = rnd<T> (O + pos2 + d * ((quad) dlen * f.ext));
+                if (p1 == l2.pos) p1.y = (T) ((quad) p1.y + qmax (f.grid, f.ext));
+                l2 = Line3<T> (l2.pos, p1);
+            }
+            else
+                l2.dir = rnd<T> (unit (d));
+            c.label (FLL_NEARPAR);
+            break;
+        }
+        case 3: // both lines from point pairs p, p + k d: d integer, k not a power of two; exactly parallel before normalisation
+        {
+            static const int KS[12] = { 1, 3, 5, 6, 7, 9, 10, 11, 12, 13, 14, 15 };
+            quad             U      = f.unit (16);
+            int              dx     = (int) s.range (-4, 4);
+            int              dy     = (int) s.range (-4, 4);
+            int              dz     = (int) s.range (-4, 4);
+            if (dx == 0 && dy == 0 && dz == 0) dz = 1;
+            int  k1  = KS[s.below (12)];
+            int  k2  = KS[s.below (12)];
+            bool neg = s.coin ();
+            if (neg) k2 = -k2;
+            int  ax = (int) s.range (-8, 8);
+            int  ay = (int) s.range (-8, 8);
+            int  az = (int) s.range (-8, 8);
+            int  bx = (int) s.range (-8, 8);
+            int  by = (int) s.range (-8, 8);
+            int  bz = (int) s.range (-8, 8);
+            bool co = s.chance (64); // coincident: second origin on the first line
+            int  m  = (int) s.range (-6, 6);
+            Q3   dI ((quad) dx, (quad) dy, (quad) dz);
+            Q3   a = Q3 ((quad) ax, (quad) ay, (quad) az) * U;
+            Q3   b = co ? a + dI * ((quad) m * U) : Q3 ((quad) bx, (quad) by, (quad) bz) * U;
+            V    p0 = rnd<T> (O + a), p1 = rnd<T> (O + a + dI * ((quad) k1 * U));
+            V    q0 = rnd<T> (O + b), q1 = rnd<T> (O + b + dI * ((quad) k2 * U));
+            VP_REQUIRE (c, q3 (p0).x == O.x + a.x && q3 (p1).z == O.z + a.z + dI.z * ((quad) k1 * U) && q3 (q1).y == O.y + b.y + dI.y * ((quad) k2 * U), "harness/far-grid-not-exact", tn << " translated lattice point is not representable (harness error)");
+            l1 = Line3<T> (p0, p1);
+            l2 = Line3<T> (q0, q1);
+            c.label (FLL_INT_MULTIPLES);
+            break;
+        }
+        case 4: // the same direction assigned (or negated); second origin anywhere or on the first line
+        {
+            Q3     pos2 = loc_pt (s, f);
+            bool   on   = s.coin ();
+            double t    = s.uniform (-4, 4);
+            bool   flip = s.coin ();
+            l2.pos = on ? l1 ((T) (t * (double) f.ext)) : rnd<T> (O + pos2);
+            l2.dir = flip ? -l1.dir : l1.dir;
+            c.label (FLL_SAME_DIR);
+            break;
+        }
+        default: // perpendicular (to rounding), direction assigned
+        {
+            Q3     pos2 = loc_pt (s, f);
+            double phi  = s.uniform (0, 6.283);
+            l2.pos = rnd<T> (O + pos2);
+            l2.dir = rnd<T> (perp_to (D1l, (quad) phi));
+            c.label (FLL_PERP);
+            break;
+        }
+    }
+    if (!(l1.dir.length2 () > 0)) l1.dir = V (1, 0, 0);
+    if (!(l2.dir.length2 () > 0)) l2.dir = V (0, 1, 0);
+    VP_NOTE (c, tn << " class=" << cls << " line1=" << vs (l1.pos) << "+t" << vs (l1.dir) << " line2=" << vs (l2.pos) << "+t" << vs (l2.dir) << far_note (f));
+    c.nt (!f.none);
+
+    Q3   P1 = q3 (l1.pos), D1 = q3 (l1.dir), P2 = q3 (l2.pos), D2 = q3 (l2.dir), W = P1 - P2;
+    quad A = dot (D1, D1), B = dot (D1, D2), C = dot (D2, D2), D = dot (D1, W), E = dot (D2, W);
+    quad den = A * C - B * B;
+    quad s2  = den / (A * C);
+    if (s2 < 0) s2 = 0;
+    Q3   CR = cross (D1, D2);
+    bool exact_parallel = CR.x == 0 && CR.y == 0 && CR.z == 0; // exact: products of two T values, exact cancellation in quad
+    if (exact_parallel) s2 = 0;
+    if (exact_parallel) c.label (FLL_EXACT_PARALLEL);
+    quad t1x = 0, t2x = 0, distx;
+    if (!exact_parallel && den > 0)
+    {
+        t1x   = (B * E - C * D) / den;
+        t2x   = (A * E - B * D) / den;
+        distx = qabs (dot (CR, W)) / len (CR);
+    }
+    else
+        distx = len (W - D1 * (D / A));
+    Q3   X1 = P1 + D1 * t1x, X2 = P2 + D2 * t2x;
+    quad lW = len (W), lP = len (P1) + len (P2);
+    bool strong = s2 >= 1024 * eps;
+    c.label (strong ? FLL_STRONG : FLL_WEAK);
+    quad ta    = qabs (t1x) + qabs (t2x);
+    quad unitP = eps * ((lW + ta) / (s2 > 0 ? s2 : 1) + lP + ta) + (quad) 1e-300;
+    quad unitE = eps * (lW / (s2 > 0 ? s2 : 1) + ta + lP) + (quad) 1e-300;
+
+    // ---- closestPoints
+    V    a (7, 7, 7), b (7, 7, 7);
+    bool ok = closestPoints (l1, l2, a, b);
+    if (!ok) c.label (FLL_REPORTED_FALSE);
+    if (strong)
+    {
+        VP_REQUIRE (c, ok, "closestPoints/false-for-nonparallel", tn << " closestPoints returned false for lines at sin^2=" << (double) s2);
+        Q3 a_ = q3 (a), b_ = q3 (b), e = a_ - b_;
+        for (int i = 0; i < 3; ++i)
+        {
+            QG_CHK (c, "closestPoints/point1/far-offset", qabs (a_[i] - X1[i]), unitP, 8, tn << " point1[" << i << "] = " << a[i] << " exact " << qstr (X1[i]) << " sin^2=" << (double) s2); // measured worst 1.6 units
+            QG_CHK (c, "closestPoints/point2/far-offset", qabs (b_[i] - X2[i]), unitP, 8, tn << " point2[" << i << "] = " << b[i] << " exact " << qstr (X2[i]) << " sin^2=" << (double) s2); // measured worst 1.6 units
+        }
+        QG_CHK (c, "closestPoints/point1-on-line1/far-offset", len (cross (a_ - P1, D1)) / len (D1), eps * (len (P1) + len (a_ - P1)) + (quad) 1e-300, 4, tn << " point1 " << vs (a) << " is off line1"); // measured worst 0.7 units
+        QG_CHK (c, "closestPoints/point2-on-line2/far-offset", len (cross (b_ - P2, D2)) / len (D2), eps * (len (P2) + len (b_ - P2)) + (quad) 1e-300, 4, tn << " point2 " << vs (b) << " is off line2"); // measured worst 0.7 units
+        QG_CHK (c, "closestPoints/perp-dir1/far-offset", qabs (dot (e, D1)), unitE, 8, tn << " (point1-point2).dir1 = " << qstr (dot (e, D1)) << " sin^2=" << (double) s2);
+        QG_CHK (c, "closestPoints/perp-dir2/far-offset", qabs (dot (e, D2)), unitE, 8, tn << " (point1-point2).dir2 = " << qstr (dot (e, D2)) << " sin^2=" << (double) s2);
+        QG_CHK (c, "closestPoints/distance/far-offset", qabs (len (e) - distx), unitE, 8, tn << " |point1-point2| = " << qstr (len (e)) << " true distance " << qstr (distx));
+    }
+    else if (ok)
+        VP_REQUIRE (c, fin3 (a) && fin3 (b), "closestPoints/nonfinite", tn << " closestPoints returned true with non-finite points " << vs (a) << " " << vs (b) << " sin^2=" << (double) s2);
+    // ---- closestPointTo(line)
+    {
+        V cp = l1.closestPointTo (l2);
+        VP_REQUIRE (c, fin3 (cp), "line-closestPointTo-line/nonfinite", tn << " closestPointTo(line) = " << vs (cp) << " sin^2=" << (double) s2);
+        Q3 cq = q3 (cp);
+        QG_CHK (c, "line-closestPointTo-line/on-line/far-offset", len (cross (cq - P1, D1)) / len (D1), eps * (len (P1) + len (cq - P1)) + (quad) 1e-300, 4, tn << " closestPointTo(line) = " << vs (cp) << " is off the line");
+        if (strong)
+            for (int i = 0; i < 3; ++i)
+                QG_CHK (c, "line-closestPointTo-line/far-offset", qabs (cq[i] - X1[i]), unitP, 8, tn << " closestPointTo(line)[" << i << "] = " << cp[i] << " exact " << qstr (X1[i]) << " sin^2=" << (double) s2);
+    }
+    // ---- distanceTo(line)
+    {
+        T    got = l1.distanceTo (l2);
+        quad sn  = sqrtq (s2);
+        VP_REQUIRE (c, got >= 0, "line-distanceTo-line/negative", tn << " distanceTo(line) = " << got);
+        bool check = exact_parallel || sn >= 64 * eps;
+        if (check)
+        {
+            c.label (FLL_DIST_CHECKED);
+            if (!exact_parallel && !strong) c.label (FLL_DIST_NEARPAR_CHECKED);
+            quad unitD = exact_parallel ? eps * (lW + lP) : eps * lW / sn;
+            QG_CHK (c, (exact_parallel ? "line-distanceTo-line/exactly-parallel/far-offset" : "line-distanceTo-line/far-offset"), qabs ((quad) got - distx), unitD + (quad) 1e-300, 8, tn << " distanceTo(line) = " << got << " exact " << qstr (distx) << " sin=" << (double) sn << " |pos1-pos2|=" << (double) lW);
+        }
+    }
+}
+#define C15_FLL_LABELS C15_FO_LABELS, "skew", "intersecting", "angle_2^-j", "point_pairs_p,p+k*d(integer_d,k_not_2^n)", "same_direction_assigned", "perpendicular", "stored_directions_exactly_parallel", "well_conditioned(strict)", "ill_conditioned(weak)", "closestPoints_false", "distanceTo_line_checked", "distanceTo_line_checked_below_sin^2=1024eps"
+#define C15_FLL_RULE C15_FO_RULE "pairs of local lines: generic, through a common point, at an angle 2^-4..2^-(digits+3), both from lattice point pairs p, p+k d (d integer, k in 1,3,5,6,7,9..15, either sign, 1/4 coincident), same/negated direction assigned, perpendicular; oracle = quad closest-point parameters and |(d1xd2).w|/|d1xd2| on the rounded inputs; points within eps((|w|+|t|)/sin^2 + |pos| + |t|) when sin^2 >= 1024 eps (else reported-or-finite), distanceTo(line) within eps |w| / sin whenever sin >= 64 eps or the stored directions are exactly parallel; non-trivial = translated"
+VP_RANDOM (far_lines_f, 200000, 2000000, C15_FLL_RULE) { far_lines_case<float> (c, "float"); }
+VP_LABELS (far_lines_f, C15_FLL_LABELS)
+VP_REQUIRE_LABELS (far_lines_f, C15_FLL_LABELS)
+VP_RANDOM (far_lines_d, 200000, 2000000, C15_FLL_RULE) { far_lines_case<double> (c, "double"); }
+VP_LABELS (far_lines_d, C15_FLL_LABELS)
+VP_REQUIRE_LABELS (far_lines_d, C15_FLL_LABELS)
+
+// ---- 9d. Plane3 set (three points; point + normal), distanceTo, reflectPoint, intersect / intersectT, translated.
+//
+//    set(p1,p2,p3): the normal comes from the differences p2 - p1, p3 - p1: accurate to eps / sin(edges) whatever
+//    M (this is what rejects p2 x p3 - p1 x p3 - p2 x p1, error eps M^2 / area).  The stored distance normal . p1
+//    is a number of size M rounded to T: every later use of the plane (distanceTo, reflectPoint, intersectT) is
+//    accurate to eps M, the signed distances themselves being of the size of the extent.  That is inherent in the
+//    (normal, distance) representation, so the units below are the ones of section 3; what is new is where the
+//    inputs are.  Lines are generic, at an angle 2^-j to the plane (j up to the digits of T + 3), or exactly in
+//    an axis-aligned plane's direction; intersect() may only return false when normal . dir vanishes to rounding.
+enum
+{
+    FP_THREE_POINTS = FO_NLABELS,
+    FP_LATTICE_POINTS,
+    FP_POINT_NORMAL,
+    FP_SLIVER,
+    FP_COLLINEAR_SKIPPED,
+    FP_Q_DEFINING,
+    FP_Q_ON_PLANE,
+    FP_Q_GENERIC,
+    FP_LINE_STRONG,
+    FP_LINE_GRAZING,
+    FP_LINE_ANGLE_2J,
+    FP_LINE_PARALLEL_FALSE
+};
+template <class T> static void far_plane_case (vp::Ctx& c, const char* tn)
+{
+    typedef Vec3<T> V;
+    vp::Src&        s   = c.s;
+    const quad      eps = EPS<T> ();
+    FarPlace        f   = gen_far<T> (c, 3);
+    Q3              O   = f.o3 ();
+    int             how = (int) s.below (3);
+    Plane3<T>       P, P2;
+    P2.normal   = V (9, 9, 9);
+    P2.distance = 9;
+    V    defpt[3];
+    int  ndef = 0;
+    if (how <= 1)
+    {
+        Q3 a, b, cc;
+        if (how == 0)
+        {
+            a           = loc_pt (s, f);
+            Q3     dl   = loc_dir (s);
+            double dlen = s.uniform (0.25, 2);
+            Q3     E1   = unit (dl) * ((quad) dlen * f.ext);
+            int    bk   = (int) s.below (4);
+            double bu   = s.uniform (0.2, 2);
+            int    bj   = (int) s.range (3, 10);
+            quad   beta = bk <= 1 ? (quad) bu : (quad) std::ldexp (bu, -bj);
+            double ga   = s.uniform (-2, 2);
+            double phi  = s.uniform (0, 6.283);
+            Q3     E2   = E1 * (quad) ga + perp_to (E1, (quad) phi) * (len (E1) * beta);
+            b  = a + Q3 (f.snap ? f.snapq (E1.x) : E1.x, f.snap ? f.snapq (E1.y) : E1.y, f.snap ? f.snapq (E1.z) : E1.z);
+            cc = a + Q3 (f.snap ? f.snapq (E2.x) : E2.x, f.snap ? f.snapq (E2.y) : E2.y, f.snap ? f.snapq (E2.z) : E2.z);
+            c.label (FP_THREE_POINTS);
+        }
+        else // lattice points: exact edges, often axis-aligned planes
+        {
+            quad U = f.unit (4);
+            int  co[9];
+            for (int i = 0; i < 9; ++i)
+                co[i] = (int) s.range (-3, 3);
+            bool flat = s.coin ();
+            int  ax   = (int) s.below (3);
+            if (flat) co[3 + ax] = co[6 + ax] = co[ax]; // all three in a coordinate plane
+            a  = Q3 ((quad) co[0], (quad) co[1], (quad) co[2]) * U;
+            b  = Q3 ((quad) co[3], (quad) co[4], (quad) co[5]) * U;
+            cc = Q3 ((quad) co[6], (quad) co[7], (quad) co[8]) * U;
+            c.label (FP_LATTICE_POINTS);
+        }
+        V va = rnd<T> (O + a), vb = rnd<T> (O + b), vc = rnd<T> (O + cc);
+        Q3   A = q3 (va), F1 = q3 (vb) - A, F2 = q3 (vc) - A, N = cross (F1, F2);
+        quad sn = (len (F1) > 0 && len (F2) > 0) ? len (N) / (len (F1) * len (F2)) : 0;
+        VP_NOTE (c, tn << " Plane3(p1,p2,p3) p1=" << vs (va) << " p2=" << vs (vb) << " p3=" << vs (vc) << far_note (f));
+        if (!(sn > 64 * eps)) // collinear (lattice, or after the rounding of far points): not a plane
+        {
+            c.label (FP_COLLINEAR_SKIPPED);
+            return;
+        }
+        P = Plane3<T> (va, vb, vc);
+        P2.set (va, vb, vc);
+        quad condN = 1 / sn;
+        if (sn < (quad) 0.05) c.label (FP_SLIVER);
+        Q3 NX = unit (N), Ns = q3 (P.normal);
+        for (int i = 0; i < 3; ++i)
+            QG_CHK (c, "plane-set3/normal/far-offset", qabs (Ns[i] - NX[i]), eps * condN, 6, tn << " normal[" << i << "] = " << P.normal[i] << " exact " << qstr (NX[i]) << " for (p2-p1)x(p3-p1), sin=" << (double) sn);
+        defpt[0] = va, defpt[1] = vb, defpt[2] = vc;
+        ndef     = 3;
+        for (int k = 0; k < 3; ++k)
+        {
+            Q3   X     = q3 (defpt[k]);
+            quad unit_ = eps * (adot (Ns, X) + qabs ((quad) P.distance) + (len (F1) + len (F2)) * condN);
+            QG_CHK (c, "plane-set3/defining-point-distance/far-offset", qabs (dot (Ns, X) - (quad) P.distance), unit_, 4, tn << " defining point " << k << " " << vs (defpt[k]) << " is at distance " << qstr (dot (Ns, X) - (quad) P.distance) << " from plane " << vs (P.normal) << "," << P.distance);
+            QG_CHK (c, "plane-set3/distanceTo-defining-point/far-offset", qabs ((quad) P.distanceTo (defpt[k])), unit_, 4, tn << " distanceTo(defining point " << k << ") = " << P.distanceTo (defpt[k]));
+        }
+    }
+    else
+    {
+        V      pt = rnd<T> (O + loc_pt (s, f));
+        Q3     nd = loc_dir (s);
+        int    ne = (int) s.range (-6, 6);
+        double nu = s.uniform (1, 2);
+        V      nn = rnd<T> (nd * (quad) std::ldexp (nu, ne));
+        P         = Plane3<T> (pt, nn);
+        P2.set (pt, nn);
+        VP_NOTE (c, tn << " Plane3(point,normal) point=" << vs (pt) << " normal=" << vs (nn) << far_note (f));
+        c.label (FP_POINT_NORMAL);
+        Q3 NX = unit (q3 (nn)), Ns = q3 (P.normal);
+        for (int i = 0; i < 3; ++i)
+            QG_CHK (c, "plane-set-pn/normal/far-offset", qabs (Ns[i] - NX[i]), eps, 6, tn << " normal[" << i << "] = " << P.normal[i] << " exact " << qstr (NX[i]));
+        quad unit_ = eps * adot (Ns, q3 (pt)) + (quad) 1e-300;
+        QG_CHK (c, "plane-set-pn/distance/far-offset", qabs ((quad) P.distance - dot (Ns, q3 (pt))), unit_, 6, tn << " distance = " << P.distance << " exact normal.point " << qstr (dot (Ns, q3 (pt))));
+        QG_CHK (c, "plane-set-pn/distanceTo-defining-point/far-offset", qabs ((quad) P.distanceTo (pt)), unit_, 4, tn << " distanceTo(defining point) = " << P.distanceTo (pt));
+        defpt[0] = pt;
+        ndef     = 1;
+    }
+    c.nt (!f.none);
+    VP_REQUIRE (c, same3 (P.normal, P2.normal) && same<T> (P.distance, P2.distance), "plane-ctor-vs-set", tn << " constructor and set() differ: " << vs (P.normal) << "," << P.distance << " vs " << vs (P2.normal) << "," << P2.distance);
+    Q3   N = q3 (P.normal);
+    quad d = (quad) P.distance;
+    QG_CHK (c, "plane-unit-normal", qabs (len (N) - 1), eps, 6, tn << " |normal| = " << qstr (len (N)));
+    Q3 Nu = unit (N);
+    Q3 X0 = q3 (defpt[0]);
+    // ---- distanceTo / reflectPoint of a point that is a defining point, on the plane, 2^-j off it, or generic
+    {
+        int    qc  = (int) s.below (4);
+        int    dk  = (int) s.below (3);
+        double al  = s.uniform (-2, 2);
+        double be  = s.uniform (-2, 2);
+        quad   h   = tiny_pert<T> (s);
+        bool   up  = s.coin ();
+        Q3     lp  = loc_pt (s, f);
+        Q3     u1  = perp_to (N, 0), u2 = unit (cross (N, u1));
+        V      q;
+        if (qc == 0)
+            q = defpt[dk % ndef];
+        else if (qc == 1)
+            q = rnd<T> (X0 + (u1 * (quad) al + u2 * (quad) be) * f.ext);
+        else if (qc == 2)
+            q = rnd<T> (X0 + (u1 * (quad) al + u2 * (quad) be) * f.ext + Nu * (h * 8 * f.ext * (up ? 1 : -1)));
+        else
+            q = rnd<T> (O + lp);
+        c.label (qc == 0 ? FP_Q_DEFINING : qc <= 2 ? FP_Q_ON_PLANE : FP_Q_GENERIC);
+        VP_NOTE (c, "q=" << vs (q));
+        Q3   Q  = q3 (q);
+        quad sd = dot (N, Q) - d;
+        quad Sq = adot (N, Q) + qabs (d) + (quad) 1e-300;
+        T    dq = P.distanceTo (q);
+        QG_CHK (c, "plane-distanceTo/far-offset", qabs ((quad) dq - sd), eps * Sq, 8, tn << " distanceTo(" << vs (q) << ") = " << dq << " exact " << qstr (sd));
+        V    r  = P.reflectPoint (q);
+        Q3   RX = Q - N * (2 * sd);
+        quad Sr = len (Q) + qabs (d) + qabs (sd) + (quad) 1e-300;
+        for (int i = 0; i < 3; ++i)
+            QG_CHK (c, "plane-reflectPoint/far-offset", qabs ((quad) r[i] - RX[i]), eps * Sr, 8, tn << " reflectPoint(" << vs (q) << ")[" << i << "] = " << r[i] << " exact " << qstr (RX[i]));
+        QG_CHK (c, "plane-reflectPoint/negates-distance/far-offset", qabs ((quad) P.distanceTo (r) + (quad) dq), eps * Sr, 16, tn << " distanceTo(reflectPoint(q)) = " << P.distanceTo (r) << " but distanceTo(q) = " << dq);
+    }
+    // ---- line / plane intersection
+    {
+        int      lc = (int) s.below (3);
+        Line3<T> l;
+        l.pos = rnd<T> (O + loc_pt (s, f));
+        bool must_be_false = false;
+        if (lc == 0) // in-plane direction of an axis-aligned plane: normal . dir is exactly 0 in T arithmetic
+        {
+            int k = 0;
+            for (int i = 1; i < 3; ++i)
+                if (std::abs (P.normal[i]) > std::abs (P.normal[k])) k = i;
+            bool axis = true;
+            for (int i = 0; i < 3; ++i)
+                if (i != k && P.normal[i] != 0) axis = false;
+            Q3 dv = loc_dir (s);
+            if (axis)
+            {
+                dv[k] = 0;
+                if (dot (dv, dv) == 0) dv[(k + 1) % 3] = 1;
+                must_be_false = true;
+                l.dir         = rnd<T> (unit (dv));
+            }
+            else
+                l.dir = rnd<T> (unit (dv));
+        }
+        else if (lc == 1) // at an angle 2^-j to the plane
+        {
+            double phi = s.uniform (0, 6.283);
+            quad   th  = tiny_pert<T> (s);
+            bool   up  = s.coin ();
+            l.dir      = rnd<T> (unit (perp_to (N, (quad) phi) + Nu * (up ? th : -th)));
+            c.label (FP_LINE_ANGLE_2J);
+        }
+        else
+        {
+            Q3     dl   = loc_dir (s);
+            double dlen = s.uniform (0.25, 2);
+            V      p1   = rnd<T> (q3 (l.pos) + f.loc3 (dl * (quad) dlen));
+            if (p1 == l.pos) p1.x = (T) ((quad) p1.x + qmax (f.grid, f.ext));
+            l = Line3<T> (l.pos, p1);
+        }
+        if (!(l.dir.length2 () > 0)) l.dir = V (1, 0, 0);
+        VP_NOTE (c, "line=" << vs (l.pos) << "+t" << vs (l.dir));
+        Q3   LP = q3 (l.pos), LD = q3 (l.dir);
+        quad nd = dot (N, LD);
+        V    ip (7, 7, 7);
+        T    t  = 7;
+        bool ok = P.intersect (l, ip), okT = P.intersectT (l, t);
+        VP_REQUIRE (c, ok == okT, "plane-intersect-vs-intersectT", tn << " intersect returns " << ok << ", intersectT " << okT);
+        if (must_be_false) VP_REQUIRE (c, !ok, "plane-intersect/parallel-true", tn << " line " << vs (l.dir) << " lies parallel to plane " << vs (P.normal) << " but intersect() returned true, t=" << t);
+        if (!ok)
+        {
+            c.label (FP_LINE_PARALLEL_FALSE);
+            VP_REQUIRE (c, qabs (nd) <= 4 * eps * adot (N, LD) + (quad) 1e-300, "plane-intersect/false-for-crossing-line", tn << " intersect() returned false although normal.dir = " << qstr (nd));
+        }
+        else
+        {
+            VP_REQUIRE (c, same3 (ip, l (t)), "plane-intersect/point-vs-T", tn << " intersect() point " << vs (ip) << " != line(intersectT) " << vs (l (t)));
+            quad and_   = adot (N, LD);
+            bool strong = qabs (nd) >= 1024 * eps * and_;
+            c.label (strong ? FP_LINE_STRONG : FP_LINE_GRAZING);
+            if (strong)
+            {
+                quad tx = (d - dot (N, LP)) / nd;
+                quad ut = eps * ((adot (N, LP) + qabs (d)) / qabs (nd) + qabs (tx) * and_ / qabs (nd)) + (quad) 1e-300;
+                QG_CHK (c, "plane-intersectT/far-offset", qabs ((quad) t - tx), ut, 6, tn << " intersectT = " << t << " exact " << qstr (tx) << " normal.dir=" << (double) nd);
+                Q3   IX = LP + LD * tx;
+                quad up = ut + eps * (len (LP) + qabs (tx));
+                for (int i = 0; i < 3; ++i)
+                    QG_CHK (c, "plane-intersect/point/far-offset", qabs ((quad) ip[i] - IX[i]), up, 4, tn << " intersect point[" << i << "] = " << ip[i] << " exact " << qstr (IX[i]));
+                QG_CHK (c, "plane-intersect/on-plane/far-offset", qabs (dot (N, q3 (ip)) - d), up, 4, tn << " intersect point " << vs (ip) << " is at distance " << qstr (dot (N, q3 (ip)) - d) << " from the plane");
+                QG_CHK (c, "plane-intersect/on-line/far-offset", len (cross (q3 (ip) - LP, LD)) / len (LD), eps * (len (LP) + len (q3 (ip) - LP)) + (quad) 1e-300, 4, tn << " intersect point " << vs (ip) << " is off the line");
+            }
+        }
+    }
+}
+#define C15_FP_LABELS C15_FO_LABELS, "from_three_points", "from_three_lattice_points", "from_point_normal", "sliver_triangle", "collinear_skipped", "q_is_defining_point", "q_on_or_2^-j_off_the_plane", "q_generic", "line_hit_well_conditioned", "line_grazing", "line_at_angle_2^-j", "line_parallel_reported"
+#define C15_FP_RULE C15_FO_RULE "planes from three local points (edges generic / slivers with sin 2^-3..2^-10 / lattice points, half of them in a coordinate plane) or point + normal (length 2^-6..2^7); query point = a defining point, on the plane, 2^-j extents off it, generic; lines generic, at an angle 2^-4..2^-(digits+3) to the plane, or exactly parallel to an axis-aligned plane; oracle = quad evaluation on the stored plane, units as in plane_*; three collinear points (sin <= 64 eps after rounding) are skipped and counted; non-trivial = translated"
+VP_RANDOM (far_plane_f, 200000, 2000000, C15_FP_RULE) { far_plane_case<float> (c, "float"); }
+VP_LABELS (far_plane_f, C15_FP_LABELS)
+VP_REQUIRE_LABELS (far_plane_f, C15_FP_LABELS)
+VP_RANDOM (far_plane_d, 200000, 2000000, C15_FP_RULE) { far_plane_case<double> (c, "double"); }
+VP_LABELS (far_plane_d, C15_FP_LABELS)
+VP_REQUIRE_LABELS (far_plane_d, C15_FP_LABELS)
+
+// ---- 9e. Sphere3 intersectT / intersect / circumscribe, translated; origin on / 2^-j inside / outside the surface,
+//      closest approach r (1 +- 2^-j).  Checks: sphere_check / circ_check of section 4, whose units for t contain
+//      only pos - centre, dir and r (the library subtracts the centre first): an expansion about the un-shifted
+//      origin, |pos|^2 - 2 pos.centre + |centre|^2 - r^2, has error eps M^2 and fails them.
+enum
+{
+    FS_ORIGIN_NEAR_SURFACE = SP_SECOND_ROOT + 1 + FO_NLABELS,
+    FS_NEAR_TANGENT,
+    FS_BOX_FLAT
+};
+template <class T> static void far_sphere_case (vp::Ctx& c, const char* tn)
+{
+    typedef Vec3<T> V;
+    vp::Src&        s = c.s;
+    FarPlace        f = gen_far<T> (c, 3);
+    // the labels of sphere_check occupy 0 .. SP_SECOND_ROOT: move the placement labels behind them
+    {
+        uint64_t m  = c.labelmask;
+        c.labelmask = m << (SP_SECOND_ROOT + 1);
+    }
+    Q3     O   = f.o3 ();
+    Q3     cl  = loc_pt (s, f);
+    int    rc  = (int) s.below (3);
+    double ru  = s.uniform (1, 2);
+    int    rj  = (int) s.range (1, 3);
+    T      rad = (T) ((rc == 0 ? std::ldexp (ru, -rj) : rc == 1 ? ru * 2 : ru) * (double) f.ext);
+    V      cen = rnd<T> (O + cl);
+    Sphere3<T> sp (cen, rad);
+    Q3     Cn = q3 (cen);
+    quad   R  = (quad) rad;
+    int    cls = (int) s.below (8);
+    Q3     u   = seq_dir (s);
+    Line3<T> l;
+    switch (cls)
+    {
+        case 0:
+        case 1:
+        {
+            double fo = s.uniform (1.1, 4);
+            Q3     td = seq_dir (s);
+            double ft = s.uniform (0, 0.9);
+            l         = Line3<T> (rnd<T> (Cn + u * (R * (quad) fo)), rnd<T> (Cn + td * (R * (quad) ft)));
+            if (cls == 1) l.dir = -l.dir;
+            break;
+        }
+        case 2:
+        {
+            double fo = s.uniform (0, 0.95);
+            Q3     td = seq_dir (s);
+            l         = Line3<T> (rnd<T> (Cn + u * (R * (quad) fo)), rnd<T> (Cn + td * (4 * R)));
+            break;
+        }
+        case 3: // origin on the surface, or 2^-j radii inside / outside it; aimed inwards / outwards / tangentially
+        {
+            int    pc  = (int) s.below (3);
+            quad   h   = tiny_pert<T> (s);
+            int    dc  = (int) s.below (3);
+            double phi = s.uniform (0, 6.283);
+            double sl  = s.uniform (0, 2);
+            quad   fo  = pc == 0 ? (quad) 1 : pc == 1 ? 1 - h : 1 + h;
+            Q3     d;
+            if (dc == 0)
+                d = -u + perp_to (u, (quad) phi) * (quad) sl;
+            else if (dc == 1)
+                d = u + perp_to (u, (quad) phi) * (quad) sl;
+            else
+                d = perp_to (u, (quad) phi);
+            l.pos = rnd<T> (Cn + u * (R * fo));
+            l.dir = rnd<T> (unit (d));
+            c.label (FS_ORIGIN_NEAR_SURFACE);
+            break;
+        }
+        case 4:
+        case 5: // closest approach r f: clear miss, or f = 1 +- 2^-j
+        {
+            double fm   = s.uniform (1.05, 4);
+            quad   h    = tiny_pert<T> (s);
+            bool   in   = s.coin ();
+            double phi  = s.uniform (0, 6.283);
+            double back = s.uniform (-2, 6);
+            quad   ff   = cls == 4 ? (quad) fm : in ? 1 - h : 1 + h;
+            Q3     m    = Cn + u * (R * ff);
+            Q3     d    = perp_to (u, (quad) phi);
+            l.pos       = rnd<T> (m - d * ((quad) back * R));
+            l.dir       = rnd<T> (d);
+            if (cls == 5) c.label (FS_NEAR_TANGENT);
+            break;
+        }
+        case 6: // through the centre
+        {
+            double fo  = s.uniform (0.1, 4);
+            bool   neg = s.coin ();
+            l          = Line3<T> (rnd<T> (Cn + u * (R * (quad) fo)), cen);
+            if (neg) l.dir = -l.dir;
+            break;
+        }
+        default: l = Line3<T> (rnd<T> (O + loc_pt (s, f)), rnd<T> (O + loc_pt (s, f))); break;
+    }
+    if (!(l.dir.length2 () > 0)) l.dir = V (0, 0, 1);
+    // ---- box for circumscribe: min local, size per axis 0 or up to 2 extents
+    V mn = rnd<T> (O + loc_pt (s, f)), mx;
+    bool flat = false;
+    for (int i = 0; i < 3; ++i)
+    {
+        bool   z  = s.chance (32);
+        double sz = s.uniform (0, 2);
+        if (z) flat = true;
+        mx[i] = z ? mn[i] : (T) ((quad) mn[i] + f.loc ((quad) sz));
+        if (mx[i] < mn[i]) mx[i] = mn[i];
+    }
+    if (flat) c.label (FS_BOX_FLAT);
+    VP_NOTE (c, tn << " sphere centre=" << vs (cen) << " r=" << rad << " line=" << vs (l.pos) << "+t" << vs (l.dir) << " class=" << cls << "; box min=" << vs (mn) << " max=" << vs (mx) << far_note (f));
+    circ_check<T> (c, tn, mn, mx);
+    sphere_check<T> (c, tn, sp, l);
+}
+#define C15_FS_LABELS C15_SP_LABELS, C15_FO_LABELS, "origin_on_or_2^-j_radii_off_the_surface", "closest_approach_r(1+-2^-j)", "flat_box"
+#define C15_FS_RULE C15_FO_RULE "spheres with local centre, r = 1/8..4 extents; lines from the 8 classes of sphere_* with the origin on the surface or 2^-4..2^-(digits+3) radii inside / outside it and closest approach r (1 +- 2^-j); boxes with local min, per-axis size 0 or up to 2 extents for circumscribe; oracle and units as in sphere_* / circumscribe_* (t: differences pos - centre only, no coordinate magnitude); non-trivial as in sphere_*"
+VP_RANDOM (far_sphere_f, 200000, 2000000, C15_FS_RULE) { far_sphere_case<float> (c, "float"); }
+VP_LABELS (far_sphere_f, C15_FS_LABELS)
+VP_REQUIRE_LABELS (far_sphere_f, C15_FS_LABELS)
+VP_RANDOM (far_sphere_d, 200000, 2000000, C15_FS_RULE) { far_sphere_case<double> (c, "double"); }
+VP_LABELS (far_sphere_d, C15_FS_LABELS)
+VP_REQUIRE_LABELS (far_sphere_d, C15_FS_LABELS)
+
+// ---- 9f. triangle intersect(), translated.  Checks: tri_check of section 5 with the far form of the position unit:
+//      d = normal . (v0 - pos) and the edges are differences (accurate relative to the extent), so only they are
+//      amplified by 1 / |normal . dir|; the coordinate magnitude enters once, in the rounding of pos + dir t and
+//      of pt - v_k (barycentrics: / smallest altitude).  An expansion normal . v0 - normal . pos (error eps M /
+//      |n.dir|) is visible on slanted lines.  Intended barycentrics 2^-j inside / outside an edge or vertex.
+enum
+{
+    FT_HIT_DECIDED = TR_FALSE + 1 + FO_NLABELS,
+    FT_EDGE_2J
+};
+template <class T> static void far_tri_case (vp::Ctx& c, const char* tn)
+{
+    typedef Vec3<T> V;
+    vp::Src&        s = c.s;
+    FarPlace        f = gen_far<T> (c, 3);
+    {
+        uint64_t m  = c.labelmask;
+        c.labelmask = m << (TR_FALSE + 1);
+    }
+    Q3   O     = f.o3 ();
+    int  shape = (int) s.below (8);
+    Q3   a, b, cc;
+    bool degenerate = false, inplane = false;
+    if (shape == 0) // exactly degenerate on the lattice
+    {
+        quad U  = f.unit (4);
+        int  ax = (int) s.range (-4, 4);
+        int  ay = (int) s.range (-4, 4);
+        int  az = (int) s.range (-4, 4);
+        int  ex = (int) s.range (-3, 3);
+        int  ey = (int) s.range (-3, 3);
+        int  ez = (int) s.range (-3, 3);
+        int  m1 = (int) s.range (-2, 2);
+        int  m2 = (int) s.range (-2, 2);
+        a  = Q3 ((quad) ax, (quad) ay, (quad) az) * U;
+        b  = a + Q3 ((quad) ex, (quad) ey, (quad) ez) * ((quad) m1 * U);
+        cc = a + Q3 ((quad) ex, (quad) ey, (quad) ez) * ((quad) m2 * U);
+        degenerate = true;
+        c.label (TR_DEGENERATE);
+    }
+    else if (shape == 1) // in a plane z = const (on the grid), line direction with z == 0
+    {
+        int    zq = (int) s.range (-4, 4);
+        double x0 = loc_unit (s);
+        double y0 = loc_unit (s);
+        double x1 = s.uniform (0.5, 3);
+        double y1 = s.uniform (-1, 1);
+        double x2 = s.uniform (-1, 1);
+        double y2 = s.uniform (0.5, 3);
+        bool   sw = s.coin ();
+        quad   z  = (quad) zq * f.unit (4);
+        a  = Q3 (f.loc ((quad) x0), f.loc ((quad) y0), z);
+        b  = Q3 (a.x + f.loc ((quad) x1 / 2), a.y + f.loc ((quad) y1 / 2), z);
+        cc = Q3 (a.x + f.loc ((quad) x2 / 2), a.y + f.loc ((quad) y2 / 2), z);
+        if (sw) std::swap (b, cc);
+        inplane = true;
+        c.label (TR_PARALLEL);
+    }
+    else
+    {
+        a           = loc_pt (s, f);
+        Q3     dl   = loc_dir (s);
+        double dlen = s.uniform (0.25, 2);
+        Q3     E1   = unit (dl) * ((quad) dlen * f.ext);
+        double bu   = s.uniform (0.2, 2);
+        int    bj   = (int) s.range (5, 12);
+        quad   beta = shape <= 5 ? (quad) bu : (quad) std::ldexp (bu, -bj);
+        double ga   = s.uniform (-1.5, 2.5);
+        double phi  = s.uniform (0, 6.283);
+        Q3     E2   = E1 * (quad) ga + perp_to (E1, (quad) phi) * (len (E1) * beta);
+        b  = a + E1;
+        cc = a + E2;
+    }
+    V v0 = rnd<T> (O + a), v1 = rnd<T> (O + b), v2 = rnd<T> (O + cc);
+    if (degenerate) VP_REQUIRE (c, q3 (v0).x == O.x + a.x && q3 (v1).y == O.y + b.y && q3 (v2).z == O.z + cc.z, "harness/far-grid-not-exact", tn << " translated lattice point is not representable (harness error)");
+    Q3 A = q3 (v0), B = q3 (v1), Cq = q3 (v2);
+    // intended barycentrics of the hit
+    int  bcls = (int) s.below (6);
+    quad bb[3];
+    {
+        double x  = s.uniform (0.05, 1);
+        double y  = s.uniform (0.05, 1);
+        double z  = s.uniform (0.05, 1);
+        quad   sm = tiny_pert<T> (s) * 8;
+        bool   ng = s.coin ();
+        int    k  = (int) s.below (3);
+        bool   n2 = s.coin ();
+        double ou = s.uniform (0.05, 2);
+        bb[0] = x, bb[1] = y, bb[2] = z;
+        if (ng) sm = -sm;
+        switch (bcls)
+        {
+            case 1: bb[k] = sm * (bb[0] + bb[1] + bb[2]); break;
+            case 2: bb[k] = sm * bb[(k + 2) % 3]; bb[(k + 1) % 3] = (n2 ? sm : -sm) * bb[(k + 2) % 3]; break;
+            case 3: bb[k] = -(quad) ou * (bb[0] + bb[1] + bb[2]); break;
+            case 4: bb[0] = bb[1] = bb[2] = 1; break;
+            default: break;
+        }
+        if (bcls == 1 || bcls == 2) c.label (FT_EDGE_2J);
+        quad sum = bb[0] + bb[1] + bb[2];
+        for (int i = 0; i < 3; ++i)
+            bb[i] /= sum;
+    }
+    Q3       H  = A * bb[0] + B * bb[1] + Cq * bb[2];
+    Q3       Nt = cross (B - A, Cq - A);
+    Line3<T> l;
+    if (degenerate)
+    {
+        Q3   lp  = loc_pt (s, f);
+        Q3   od  = loc_dir (s);
+        bool thr = s.coin ();
+        l        = Line3<T> (rnd<T> (O + lp), rnd<T> (H + (thr ? Q3 () : unit (od) * f.ext)));
+    }
+    else if (inplane)
+    {
+        Q3   dv  = loc_dir (s);
+        bool inp = s.coin ();
+        Q3   lp  = loc_pt (s, f);
+        dv.z     = 0;
+        if (dot (dv, dv) == 0) dv.x = 1;
+        l.pos = inp ? rnd<T> (H) : rnd<T> (O + lp);
+        l.dir = rnd<T> (unit (dv));
+    }
+    else
+    {
+        if (!(len (Nt) > 0)) // collinear after the rounding of far points
+        {
+            c.label (TR_ILLCOND);
+            return;
+        }
+        Q3     n   = unit (Nt);
+        int    gz  = (int) s.below (4);
+        double cu  = s.uniform (0.2, 1);
+        int    cj  = (int) s.range (3, 12);
+        bool   ng  = s.coin ();
+        double phi = s.uniform (0, 6.283);
+        double Lu  = s.uniform (0.5, 8);
+        bool   beh = s.chance (64);
+        quad   cs  = gz <= 2 ? (quad) cu : (quad) std::ldexp (1.0 + cu, -cj);
+        if (ng) cs = -cs;
+        Q3   dir = n * cs + perp_to (n, (quad) phi) * sqrtq (1 - cs * cs);
+        quad L   = (quad) Lu * f.ext * (beh ? -1 : 1);
+        V    o   = rnd<T> (H - dir * L);
+        V    h   = rnd<T> (H);
+        if (h == o) o = rnd<T> (H - dir * (L + 4 * f.grid * (beh ? -1 : 1)));
+        l = Line3<T> (o, h);
+        if (beh) l.dir = -l.dir, c.label (TR_NEG_T);
+        if (gz == 3) c.label (TR_GRAZING);
+    }
+    if (!(l.dir.length2 () > 0)) l.dir = V (0, 0, 1);
+    VP_NOTE (c, tn << " v0=" << vs (v0) << " v1=" << vs (v1) << " v2=" << vs (v2) << " line=" << vs (l.pos) << "+t" << vs (l.dir) << " shape=" << shape << " baryclass=" << bcls << far_note (f));
+    tri_check<T> (c, tn, v0, v1, v2, l, degenerate, inplane, true);
+    if (c.nontrivial && !degenerate && !inplane) c.label (FT_HIT_DECIDED);
+}
+#define C15_FT_LABELS C15_TR_LABELS, C15_FO_LABELS, "hit_or_miss_decided", "intended_hit_2^-j_from_an_edge_or_vertex"
+#define C15_FT_RULE C15_FO_RULE "local triangles (regular, thin with altitude 2^-5..2^-12 of the base, exactly degenerate on the lattice, in a plane z = const with an in-plane line) x intended barycentrics (interior, 2^-1..2^-(digits) inside/outside an edge or vertex, clearly outside, centroid) x lines through the hit from either side incl. |n.dir| 2^-3..2^-12 and hits behind pos; oracle, band and units as in tri_* with the far form of the position unit ((|v|+|pos|+|t|) + (|v0-pos|+|t|)/|n.dir| + cond |X-v0|/|n.dir|); non-trivial as in tri_* (conditioning eps M / altitude <= 1/256 and hit outside the band)"
+VP_RANDOM (far_tri_f, 250000, 2500000, C15_FT_RULE) { far_tri_case<float> (c, "float"); }
+VP_LABELS (far_tri_f, C15_FT_LABELS)
+VP_REQUIRE_LABELS (far_tri_f, "hit_interior", "hit_near_edge", "hit_near_vertex", "passes_outside", "front_facing", "back_facing", "hit_behind_line_origin", "grazing_line", "thin_triangle", "degenerate_triangle", "line_parallel_to_plane", "returned_true", "returned_false", C15_FO_REQUIRED, "hit_or_miss_decided", "intended_hit_2^-j_from_an_edge_or_vertex")
+VP_RANDOM (far_tri_d, 250000, 2500000, C15_FT_RULE) { far_tri_case<double> (c, "double"); }
+VP_LABELS (far_tri_d, C15_FT_LABELS)
+VP_REQUIRE_LABELS (far_tri_d, "hit_interior", "hit_near_edge", "hit_near_vertex", "passes_outside", "front_facing", "back_facing", "hit_behind_line_origin", "grazing_line", "thin_triangle", "degenerate_triangle", "line_parallel_to_plane", "returned_true", "returned_false", C15_FO_REQUIRED, "hit_or_miss_decided", "intended_hit_2^-j_from_an_edge_or_vertex")
+
+// =====================================================================================
+// 10. project / orthogonal / reflect next to their special cases: t at an angle 2^-j (j = 4 .. digits + 3) from
+//     parallel, antiparallel or perpendicular to s, exactly parallel / perpendicular, and |t| / |s| from 2^-60 to
+//     2^60 (float) / 2^-400 to 2^400 (double).  These functions act on vectors (no translation class); the
+//     results are accurate to eps |t| (a relative perturbation eps of s turns s^ by eps and moves every result by
+//     eps |t|), which is far below the distance to the special case for every j <= digits - 5: a shortcut that
+//     treats "nearly perpendicular" as perpendicular (or nearly parallel as parallel) is visible.
+// =====================================================================================
+enum
+{
+    VN_VEC2,
+    VN_VEC3,
+    VN_VEC4,
+    VN_NEAR_PARALLEL,
+    VN_NEAR_ANTIPARALLEL,
+    VN_NEAR_PERP,
+    VN_EXACT_PARALLEL,
+    VN_EXACT_PERP,
+    VN_GENERIC_ANGLE,
+    VN_T_MUCH_LARGER,
+    VN_T_MUCH_SMALLER,
+    VN_S_AXIS
+};
+template <class Vec, class T, int N> static void vec_near_case (vp::Ctx& c, const char* tn)
+{
+    vp::Src&   s   = c.s;
+    const quad eps = EPS<T> ();
+    const int  SC  = FarK<T>::SC;
+    // ---- s
+    int    dcl = (int) s.below (3);
+    double sd[4] = { 0, 0, 0, 0 };
+    if (dcl == 0)
+    {
+        int  a   = (int) s.below ((uint64_t) N);
+        bool neg = s.coin ();
+        sd[a]    = neg ? -1 : 1;
+        c.label (VN_S_AXIS);
+    }
+    else if (dcl == 1)
+    {
+        bool z = true;
+        for (int i = 0; i < N; ++i)
+        {
+            int m = (int) s.range (-4, 4);
+            sd[i] = m;
+            if (m) z = false;
+        }
+        if (z) sd[0] = 1;
+    }
+    else
+    {
+        double n2 = 0;
+        for (int i = 0; i < N; ++i)
+        {
+            sd[i] = s.uniform (-1, 1);
+            n2 += sd[i] * sd[i];
+        }
+        if (n2 < 0.01) sd[0] = 1;
+    }
+    int    sc = (int) s.range (-SC, SC);
+    double su = s.uniform (1, 2);
+    Vec    ss, tv;
+    quad   S[4] = { 0, 0, 0, 0 }, Tq[4] = { 0, 0, 0, 0 };
+    for (int i = 0; i < N; ++i)
+    {
+        ss[i] = (T) std::ldexp (sd[i] * (dcl == 1 ? 1.0 : su), sc);
+        S[i]  = (quad) ss[i];
+    }
+    quad s2 = 0;
+    for (int i = 0; i < N; ++i)
+        s2 += S[i] * S[i];
+    quad ls = sqrtq (s2);
+    // ---- a unit vector u perpendicular to the stored s (Gram-Schmidt in quad)
+    quad U[4] = { 0, 0, 0, 0 };
+    {
+        double w[4];
+        for (int i = 0; i < N; ++i)
+            w[i] = s.uniform (-1, 1);
+        quad pw = 0;
+        for (int i = 0; i < N; ++i)
+            pw += (quad) w[i] * S[i] / ls;
+        quad u2 = 0;
+        for (int i = 0; i < N; ++i)
+        {
+            U[i] = (quad) w[i] - pw * S[i] / ls;
+            u2 += U[i] * U[i];
+        }
+        if (u2 < (quad) 1e-4) // w (nearly) parallel to s: rotate the two largest components of s instead
+        {
+            int i0 = 0;
+            for (int i = 1; i < N; ++i)
+                if (qabs (S[i]) > qabs (S[i0])) i0 = i;
+            int i1 = i0 == 0 ? 1 : 0;
+            for (int i = 0; i < N; ++i)
+                U[i] = 0;
+            U[i0] = -S[i1] / ls;
+            U[i1] = S[i0] / ls;
+            u2    = U[i0] * U[i0] + U[i1] * U[i1];
+        }
+        quad lu = sqrtq (u2);
+        for (int i = 0; i < N; ++i)
+            U[i] /= lu;
+    }
+    // ---- t = |t| (cos a s^ + sin a u)
+    int    acl = (int) s.below (6);
+    quad   th  = tiny_pert<T> (s);
+    bool   ng  = s.coin ();
+    double ga  = s.uniform (-3.1416, 3.1416);
+    int    tm  = (int) s.range (-SC, SC);
+    double tu  = s.uniform (1, 2);
+    int    pk  = (int) s.range (-12, 12);
+    quad   lt0 = (quad) std::ldexp (tu, tm);
+    quad   ca, sa;
+    switch (acl)
+    {
+        case 0: ca = cosq (th), sa = sinq (th); c.label (VN_NEAR_PARALLEL); break;
+        case 1: ca = -cosq (th), sa = sinq (th); c.label (VN_NEAR_ANTIPARALLEL); break;
+        case 2: ca = ng ? -sinq (th) : sinq (th), sa = cosq (th); c.label (VN_NEAR_PERP); break;
+        case 3: ca = 1, sa = 0; break;
+        case 4: ca = 0, sa = 1; break;
+        default: ca = cosq ((quad) ga), sa = sinq ((quad) ga); c.label (VN_GENERIC_ANGLE); break;
+    }
+    if (ng) sa = -sa;
+    for (int i = 0; i < N; ++i)
+        tv[i] = (T) (lt0 * (ca * S[i] / ls + sa * U[i]));
+    if (acl == 3) // exactly parallel: t = s * (m / 8), a product without rounding in T for the small-integer s
+    {
+        for (int i = 0; i < N; ++i)
+            tv[i] = (T) (S[i] * (quad) (pk == 0 ? 1 : pk) / 8);
+        if (dcl <= 1) c.label (VN_EXACT_PARALLEL);
+    }
+    if (acl == 4 && N >= 2) // exactly perpendicular to the stored s: (-s1, s0, 0, 0) scaled by a power of two
+    {
+        int i0 = 0;
+        for (int i = 1; i < N; ++i)
+            if (qabs (S[i]) > qabs (S[i0])) i0 = i;
+        int i1 = i0 == 0 ? 1 : 0;
+        for (int i = 0; i < N; ++i)
+            tv[i] = 0;
+        tv[i0] = (T) (-S[i1] * (quad) std::ldexp (1.0, pk));
+        tv[i1] = (T) (S[i0] * (quad) std::ldexp (1.0, pk));
+        c.label (VN_EXACT_PERP);
+    }
+    quad st = 0, t2 = 0;
+    for (int i = 0; i < N; ++i)
+    {
+        Tq[i] = (quad) tv[i];
+        st += S[i] * Tq[i];
+        t2 += Tq[i] * Tq[i];
+    }
+    quad lt = sqrtq (t2);
+    VP_NOTE (c, tn << " s=" << vstr (ss, N) << " t=" << vstr (tv, N) << " angle class " << acl);
+    if (lt > ls * 1024) c.label (VN_T_MUCH_LARGER);
+    if (lt * 1024 < ls) c.label (VN_T_MUCH_SMALLER);
+    c.nt (true);
+    quad ut = eps * lt + (quad) 1e-300;
+    Vec  pr = project (ss, tv), og = orthogonal (ss, tv);
+    quad dots = 0;
+    for (int i = 0; i < N; ++i)
+    {
+        quad px = S[i] * st / s2;
+        QG_CHK (c, "project/near-special", qabs ((quad) pr[i] - px), ut, 16, tn << " project(s,t)[" << i << "] = " << pr[i] << " exact " << qstr (px) << " s=" << vstr (ss, N) << " t=" << vstr (tv, N));
+        QG_CHK (c, "orthogonal/near-special", qabs ((quad) og[i] - (Tq[i] - px)), ut, 16, tn << " orthogonal(s,t)[" << i << "] = " << og[i] << " exact " << qstr (Tq[i] - px) << " s=" << vstr (ss, N) << " t=" << vstr (tv, N));
+        QG_CHK (c, "project+orthogonal/near-special", qabs ((quad) pr[i] + (quad) og[i] - Tq[i]), ut, 2, tn << " project+orthogonal != t in slot " << i);
+        dots += (quad) og[i] * S[i] / ls;
+    }
+    QG_CHK (c, "orthogonal/perp/near-special", qabs (dots), ut, 16, tn << " orthogonal(s,t).s/|s| = " << qstr (dots));
+    Vec  rf = reflect (tv, ss);
+    quad l2 = 0;
+    for (int i = 0; i < N; ++i)
+    {
+        quad rx = 2 * S[i] * st / s2 - Tq[i];
+        QG_CHK (c, "reflect/near-special", qabs ((quad) rf[i] - rx), ut, 32, tn << " reflect(t,s)[" << i << "] = " << rf[i] << " exact " << qstr (rx) << " s=" << vstr (ss, N) << " t=" << vstr (tv, N));
+        l2 += (quad) rf[i] * (quad) rf[i];
+    }
+    QG_CHK (c, "reflect/length/near-special", qabs (sqrtq (l2) - lt), ut, 32, tn << " |reflect(t,s)| = " << qstr (sqrtq (l2)) << " |t| = " << qstr (lt));
+}
+template <class T> static void vec_near_dispatch (vp::Ctx& c)
+{
+    int N = 2 + (int) c.s.below (3);
+    c.label (N == 2 ? VN_VEC2 : N == 3 ? VN_VEC3 : VN_VEC4);
+    const bool dbl = sizeof (T) == 8;
+    if (N == 2)
+        vec_near_case<Vec2<T>, T, 2> (c, dbl ? "V2d" : "V2f");
+    else if (N == 3)
+        vec_near_case<Vec3<T>, T, 3> (c, dbl ? "V3d" : "V3f");
+    else
+        vec_near_case<Vec4<T>, T, 4> (c, dbl ? "V4d" : "V4f");
+}
+#define C15_VN_LABELS "Vec2", "Vec3", "Vec4", "t_2^-j_from_parallel", "t_2^-j_from_antiparallel", "t_2^-j_from_perpendicular", "t_exactly_parallel", "t_exactly_perpendicular", "t_generic_angle", "|t|>1024|s|", "|t|<|s|/1024", "s_axis_aligned"
+#define C15_VN_RULE "s axis-aligned / small integers / random, scaled by 2^-30..2^30 (float) / 2^-200..2^200 (double); t of length 2^-30..2^30 / 2^-200..2^200 at an angle 2^-4..2^-(digits+3) from parallel, antiparallel or perpendicular to s, exactly parallel (s m/8), exactly perpendicular ((-s1,s0,0,0) 2^k) or at a generic angle; oracle = quad formulas on the rounded inputs, units eps |t| as in vecalgo_*; all cases non-trivial"
+VP_RANDOM (vec_near_f, 200000, 2000000, C15_VN_RULE) { vec_near_dispatch<float> (c); }
+VP_LABELS (vec_near_f, C15_VN_LABELS)
+VP_REQUIRE_LABELS (vec_near_f, C15_VN_LABELS)
+VP_RANDOM (vec_near_d, 200000, 2000000, C15_VN_RULE) { vec_near_dispatch<double> (c); }
+VP_LABELS (vec_near_d, C15_VN_LABELS)
+VP_REQUIRE_LABELS (vec_near_d, C15_VN_LABELS)
+
+// ==== END OF FAR SECTIONS ====
 VP_MAIN ("C15")
